@@ -1,11 +1,43 @@
 """C13 - A profile generated from a beacon configuration is valid and faithful (structural part).
 
-The rules of this module do not match the *spelling* of the generator code.  Most of them evaluate the functions they
-talk about with a small partial evaluator (section "partial evaluator" below) on concrete members of the finite
-vocabularies of the property (executors, BeaconGate names, transform opcodes, sample byte strings) and look at what
-the code *does* with them: which builder primitive is called on which block with which name and arguments.  Early
-returns, `continue`, inverted tests, conditional expressions, renamed locals, hoisted constants and extracted helpers
-all lead to the same observations.  Whatever the evaluator cannot evaluate makes the obligation *undecided*.
+The rules of this module do not match the *spelling* of the generator code.  Most of them follow the functions they talk
+about path by path with a symbolic walker over the parsed AST (section "symbolic walker" below): parameters are symbols,
+definitions are substituted into terms, unknown branch outcomes are followed both ways, and a dispatcher (the settings
+loop, the opcode / executor / option-name dispatch of the builders) is specialised per member of a finite vocabulary that
+comes from the analysed code or the reference tables (BeaconSetting / InjectExecutor members, BeaconGateOptions field
+names and the group labels the producer emits, opcode names of the transform / recover tables, build selectors) - the
+*arguments* of such an entry stay symbolic.  The rules then look at what the code does with the entry: which builder
+primitive is called on which block with which name and which argument *term*.  Early returns, `continue`, inverted
+tests, conditional expressions, renamed locals, hoisted constants and extracted helpers all lead to the same terms.
+Whatever the walker does not model makes the obligation *undecided*.  No input data is made up anywhere: there are no
+sample byte strings, programs, lengths or token streams, and nothing of /repo is imported or executed.
+
+Technique (numbers: ALLOWED devices of RULES_GUIDE.md, "What counts as static here")
+  walker  2 (both outcomes of unknown tests; outcome of a symbolic value kept along a path), 3 (terms by substituting
+          definitions, argument binding into package callees, loop bodies analysed once with a symbolic item), 4 (nullness
+          and type-tag facts of symbols: `_Val` is not None / is a bytes, str or int value; container-kind facts), 5
+          (specialisation per vocabulary member), 6 (constant folding of expressions whose operands are all constants of the
+          code).  Text lemmas S1-S6 (substring / first occurrence / equality refutation / slicing / case mapping /
+          prefix-suffix of a concatenation with constant segments) are stated at `_Str`.
+  R1   1 (call sites, resolved receiver classes, class-level aliases), 3 (constant names through temporaries), 5 (settings
+       loop per BeaconSetting member, value symbolic), 6 (compiled grammar: alias / arity / OPTION terminal; opcode tables).
+  R2   1 (constants the producer emits, cstruct field names), 5 (consumer loop per label / field name), 3 (the emitted
+       builder call as a term), 6 (grammar alias and keyword).
+  R3   5 (producer per InjectExecutor member, input symbolic; consumer per produced entry), 3 (the entry of an executor
+       with an argument is a text term, lemmas S1-S4 and S6 decide `" " in`, partition, slicing, membership), 6 (grammar
+       alias / keyword / arity; reference spelling table), sibling agreement as equality of the builder-call terms.
+  R4   5 (per valued opcode / transform key, byte argument symbolic), 3 (the term that reaches the step / set_option is
+       classified structurally).  Lemmas: E1 `repr(b)[2:-1]` is an escape-encoding of b; E2 `b.decode(codec)` /
+       `str(b, codec)` is not.  Any other function of the argument: undecided.
+  R5   5 (per opcode name, build selector, transform key, DNS setting), 3 (builder calls as terms compared with the reading
+       of the opcode tables; sibling settings compared by structural equality of the terms), 4 (container kind: lemma K, a
+       dict / set keeps one line per name).
+  R6   1, 2 (CFG dominance of the attachment by a non-emptiness condition), 3 (values the child is fed from).
+  R7   imported: C03.R6 (rules/c03.py) - its devices are declared there.
+  R8   4 (nullness case analysis of the argument: None / not None, nothing else known), 3 (the appended Tree term and its
+       child list), sibling agreement as equality of the terms.
+  R9   5 (per lower-cased opcode name of the transform / recover tables, argument symbolic), 3 (the tree term of the
+       block), 6 (grammar alias and arity).
 """
 
 from __future__ import annotations
@@ -36,9 +68,9 @@ def _c(node):
         return None
 
 
-# ============================================================================ partial evaluator
+# ============================================================================ symbolic walker
 class Unknown(Exception):
-    """The evaluator met something it does not model: the rule that asked is undecided."""
+    """The walker met something it does not model: the rule that asked is undecided."""
 
 
 class _Break(Exception):
@@ -55,7 +87,7 @@ class _Return(Exception):
 
 
 class _Raised(Exception):
-    """The evaluated code raises."""
+    """The code raises on the path followed."""
 
     def __init__(self, name, node=None):
         Exception.__init__(self, name)
@@ -72,11 +104,89 @@ class _Op:
     def __repr__(self):
         return f"<{self.tag}>"
 
-    def __str__(self):
-        return "<arg>"
 
-    def __format__(self, spec):
-        return "<arg>"
+class _Val(_Op):
+    """A symbolic argument: some value of Python type `kind` ('bytes' | 'str' | 'int'; None: any type) that is not None.
+    Nothing else is known about it - in particular not its content, length or truth value."""
+
+    def __init__(self, tag, kind=None):
+        _Op.__init__(self, tag)
+        self.kind = kind
+
+
+class _Seq(_Op):
+    """A symbolic sequence under a case analysis: the entries considered are `items` (vocabulary members with symbolic
+    arguments).  Iterating it gives those entries and it is non-empty iff it has entries; its length, its indexing and
+    its equality with other values are unknown."""
+
+    def __init__(self, items, tag="entries"):
+        _Op.__init__(self, tag)
+        self.items = list(items)
+
+
+class _Str(_Op):
+    """Symbolic text: a concatenation of constant segments (str) and holes (values whose text is unknown).  Always has at
+    least one hole (`_mk_str` gives a plain str otherwise).  The facts used about it are the lemmas S1-S6 below."""
+
+    def __init__(self, parts):
+        _Op.__init__(self, "text")
+        self.parts = parts
+
+    def __repr__(self):
+        return _template_text(self)
+
+
+def _mk_str(parts):
+    norm: list = []
+    for p in parts:
+        for q in (p.parts if isinstance(p, _Str) else [p]):
+            if isinstance(q, str):
+                if not q:
+                    continue
+                if norm and isinstance(norm[-1], str):
+                    norm[-1] += q
+                else:
+                    norm.append(q)
+            else:
+                norm.append(q)
+    if all(isinstance(q, str) for q in norm):
+        return "".join(norm)
+    return _Str(norm)
+
+
+def _template_text(s) -> str:
+    """Display form of a text term (constant segments verbatim, every hole as <arg>); never used to decide anything."""
+    if isinstance(s, _Str):
+        return "".join(q if isinstance(q, str) else "<arg>" for q in s.parts)
+    return s if isinstance(s, str) else _show(s)
+
+
+# Lemmas on text terms T = s0 . h1 . s1 ... (si constant segments, hi holes of unknown content):
+#  S1  a constant c that occurs inside one segment si occurs in T                      (a substring of a part is a substring of the whole)
+#  S2  if the leading segment s0 contains c, the first occurrence of c in T is the first occurrence in s0
+#      (an occurrence starting earlier would end before that one ends, i.e. inside s0)
+#  S3  T == c is impossible unless c starts with s0, ends with the trailing segment and len(c) >= sum len(si)
+#  S4  T[a:-b] (a <= len(s0), b <= len(trailing segment), a, b >= 0) removes a characters of s0 and b of the trailing segment
+#  S5  lower()/upper() distribute over concatenation
+#  S6  T.startswith(c) / endswith(c) is decided by s0 / the trailing segment when that segment is at least as long as c,
+#      and refuted when the segment and c disagree on their common length
+def _str_lead(t: _Str) -> str:
+    return t.parts[0] if isinstance(t.parts[0], str) else ""
+
+
+def _str_trail(t: _Str) -> str:
+    return t.parts[-1] if isinstance(t.parts[-1], str) else ""
+
+
+def _str_const_len(t: _Str) -> int:
+    return sum(len(q) for q in t.parts if isinstance(q, str))
+
+
+def _str_may_equal(t: _Str, c) -> bool:
+    """S3.  False: T == c is impossible."""
+    if not isinstance(c, str):
+        return False  # a text never equals a value of another type
+    return c.startswith(_str_lead(t)) and c.endswith(_str_trail(t)) and len(c) >= _str_const_len(t)
 
 
 class _Glob(_Op):
@@ -148,7 +258,7 @@ class _Attr(_Op):
 
 
 class _Obj(_Op):
-    """Result of a call that is not evaluated.  `cls` is set when the callee is a class of the package (a builder
+    """Term for the result of a call that is not followed.  `cls` is set when the callee is a class of the package (a builder
     object); `recv` is the receiver when the callee was a method of another opaque value."""
 
     def __init__(self, callee, args=(), kwargs=None, node=None, cls=None, recv=None):
@@ -158,7 +268,7 @@ class _Obj(_Op):
 
 
 class _Sym(_Obj):
-    """A parameter of the function under evaluation (self, config, data ...)."""
+    """A parameter of the function that is followed (self, config, data ...): a symbol."""
 
     def __init__(self, name, cls=None):
         _Obj.__init__(self, name, cls=cls)
@@ -172,7 +282,7 @@ class _Closure:
 
 
 class _Ev:
-    """One call on a value the evaluator does not look into."""
+    """One call on a value the walker does not look into."""
 
     def __init__(self, recv, attr, args, kwargs, node, prim=None, result=None):
         self.recv, self.attr, self.args, self.kwargs, self.node, self.prim, self.result = recv, attr, args, kwargs, node, prim, result
@@ -213,6 +323,10 @@ def _show(v, depth=0) -> str:
     if isinstance(v, _Obj):
         parts = [_show(a, depth + 1) for a in v.args] + [f"{k}={_show(x, depth + 1)}" for k, x in sorted(v.kwargs.items())]
         return f"{v.callee}({', '.join(parts)})"
+    if isinstance(v, _Str):
+        return "text(" + " + ".join(repr(q) if isinstance(q, str) else _show(q, depth + 1) for q in v.parts) + ")"
+    if isinstance(v, _Seq):
+        return "entries[" + ", ".join(_show(x, depth + 1) for x in v.items) + "]"
     if isinstance(v, _Op):
         return f"<{v.tag}>"
     if isinstance(v, (list, tuple)):
@@ -251,6 +365,8 @@ _BINOPS = {ast.Add: operator.add, ast.Sub: operator.sub, ast.Mult: operator.mul,
            ast.RShift: operator.rshift, ast.Pow: operator.pow}
 _IBINOPS = {ast.Add: operator.iadd, ast.Sub: operator.isub, ast.BitOr: operator.ior, ast.BitAnd: operator.iand, ast.Mult: operator.imul}
 _CMPOPS = {ast.Lt: operator.lt, ast.LtE: operator.le, ast.Gt: operator.gt, ast.GtE: operator.ge}
+_KIND_TYPES = {"bytes": bytes, "str": str, "int": int}
+_KIND_COMPARABLE = {"bytes": (bytes, bytearray), "str": (str,), "int": (int, float, complex)}
 _STEP_LIMIT = 100000
 _PATH_LIMIT = 96
 _DEPTH_LIMIT = 5
@@ -300,15 +416,22 @@ def _enum_table(ctx) -> Dict[str, Dict[str, int]]:
 
 
 class _Interp:
-    """Evaluates statements of package code on partially known values.
+    """Path-wise symbolic value flow over the statements of a package function (policy devices 2, 3, 5, 6).
 
-    * data (str, bytes, numbers, containers) is computed for real, with the methods of the builtin types;
-    * everything else is opaque: attribute reads give `_Attr`, calls give `_Obj` and are recorded in `events`;
-    * a test on an opaque value asks the oracle (both outcomes are explored by `_paths`);
-    * a loop over an opaque iterable runs its body once with opaque targets (or over the items the `iter` hook supplies),
-      a `while` loop with an unknown / constant-true test runs its body once;
-    * calls of methods of package classes that are not builder primitives are evaluated (bounded depth).
-    Nothing of the package is imported or executed: the evaluator walks the parsed AST only."""
+    * the parameters of the function are symbols (`_Sym`, `_Val`, `_Seq`); attribute reads on unknown values give `_Attr`
+      terms, calls give `_Obj` terms (callee, arguments) and are recorded in `events`; tuple unpacking, subscripts,
+      `repr()`/`str()` of an unknown value and text formatting give terms too (`item(..)`, `slice(..)`, `repr(..)`,
+      `_Str` templates) - definitions are substituted, nothing is computed from unknown data;
+    * expressions whose operands are all constants of the analysed code (literals, enum members, module constant tables,
+      names of the vocabulary member a case analysis fixed) are constant-folded with the builtin operations; the
+      containers the code itself builds (lists, dicts) hold the terms put into them;
+    * a branch test whose outcome is unknown stays symbolic: both outcomes are followed (`_paths`), the outcome chosen for
+      one symbolic value is kept along the path; tests on `_Val`/`_Str`/`_Seq` are decided only by the nullness / type-tag
+      facts of the symbol and the text lemmas S1-S6;
+    * a loop is analysed once: over an unknown iterable with a symbolic item (or the entries of the case analysis, `_Seq`
+      / the `iter` hook); a `while` loop body once.  A loop over a constant table of the code visits the table's entries;
+    * calls of methods of package classes that are not builder primitives are followed (argument binding, bounded depth).
+    Nothing of the package is imported or executed, and no input data is made up: the walker sees the parsed AST only."""
 
     def __init__(self, ctx, modname: str, oracle: _Oracle, hooks: Optional[dict] = None, descend=True):
         self.ctx = ctx
@@ -324,6 +447,7 @@ class _Interp:
         self.depth = 0
         self._globals: Dict[str, object] = {}
         self._glob_busy: Set[str] = set()
+        self._decided: Dict[int, Tuple[object, bool]] = {}  # symbolic value -> branch outcome chosen on this path
 
     # ------------------------------------------------------------------ package lookups
     def _find_class(self, name: str) -> Optional[Tuple[str, ast.ClassDef]]:
@@ -421,12 +545,28 @@ class _Interp:
             known = self.block_nonempty(v.base.base)
             if known is not None:
                 return known
+        if isinstance(v, _Seq):
+            return bool(v.items)  # named assumption: the sequence holds the entries of the case analysis
+        if isinstance(v, _Str) and _str_const_len(v) > 0:
+            return True  # a text with a non-empty constant segment is not empty
+        if isinstance(v, _Attr):
+            return self.oracle.decide()  # attributes of mutable objects: not remembered
         if isinstance(v, _Op):
-            return self.oracle.decide()
+            return self._decide(v)
         try:
             return bool(v)
         except Exception:
             raise Unknown("truth value of " + repr(v)[:40])
+
+    def _decide(self, v) -> bool:
+        """Outcome of a test on symbolic value `v`: unknown, so the oracle picks; the same value keeps its outcome along
+        the path (the terms are immutable, so asking twice cannot give two answers)."""
+        hit = self._decided.get(id(v))
+        if hit is not None and hit[0] is v:
+            return hit[1]
+        d = self.oracle.decide()
+        self._decided[id(v)] = (v, d)
+        return d
 
     def block_nonempty(self, obj: _Obj, depth=0) -> Optional[bool]:
         """Does builder object `obj` have children so far?  Model of the ConfigBlock primitives (each set_option / _enable /
@@ -556,13 +696,17 @@ class _Interp:
         fn = table.get(op) or _BINOPS.get(op)
         if fn is None:
             raise Unknown("operator " + op.__name__)
-        if _opaque(l) or (_opaque(r) and not (op is ast.Mod and isinstance(l, str))):
-            return _Op("binop")
+        if op is ast.Add and isinstance(l, (str, _Str)) and isinstance(r, (str, _Str)):
+            return _mk_str([l, r])  # concatenation of text terms
+        if _opaque(l) or _opaque(r):
+            return _Obj("binop " + op.__name__, [l, r], node=node)
+        if _has_opaque(l) or _has_opaque(r):
+            if op is ast.Add and type(l) is type(r) and isinstance(l, (list, tuple)):
+                return l + r  # concatenation of containers the code built: the elements stay terms
+            return _Obj("binop " + op.__name__, [l, r], node=node)
         try:
             return fn(l, r)
         except Exception as ex:
-            if _has_opaque(l) or _has_opaque(r):
-                return _Op("binop")
             raise _Raised(type(ex).__name__, node)
 
     def e_Compare(self, e, env):
@@ -581,7 +725,41 @@ class _Interp:
     def _identity_known(self, v) -> bool:
         return not isinstance(v, _Op) or (isinstance(v, _Obj) and v.cls is not None) or isinstance(v, (_ClsRef, _FnRef, _EnumCls))
 
+    def _sym_cmp(self, op, l, r):
+        """Comparisons decided by what is known about a symbol (`_Val`: not None, type tag; `_Str`: lemmas S1, S3) ->
+        True / False, or NotImplemented when nothing decides."""
+        if isinstance(op, (ast.Is, ast.IsNot)):
+            for a, b in ((l, r), (r, l)):
+                if isinstance(a, (_Val, _Str, _Seq)) and (b is None or (isinstance(b, bool) and (not isinstance(a, _Val) or a.kind is not None))):
+                    return isinstance(op, ast.IsNot)  # not None (nullness fact); a bytes/str/int value is not the object True / False
+            return NotImplemented
+        if isinstance(op, (ast.Eq, ast.NotEq)):
+            for a, b in ((l, r), (r, l)):
+                if _opaque(b):
+                    continue
+                if isinstance(a, _Str) and not _str_may_equal(a, b):
+                    return isinstance(op, ast.NotEq)
+                if isinstance(a, _Val):
+                    if b is None or (a.kind is not None and not isinstance(b, _KIND_COMPARABLE[a.kind])):
+                        return isinstance(op, ast.NotEq)  # not None; values of unrelated builtin types are unequal
+            return NotImplemented
+        if isinstance(op, (ast.In, ast.NotIn)):
+            if isinstance(r, _Str) and isinstance(l, str):
+                if any(isinstance(q, str) and l in q for q in r.parts):
+                    return isinstance(op, ast.In)  # S1
+                return NotImplemented
+            if isinstance(l, (_Str, _Val)) and isinstance(r, (list, tuple, set, frozenset)) and not _has_opaque(r):
+                ne = ast.NotEq()
+                if all(self._sym_cmp(ne, l, x) is True for x in r):
+                    return isinstance(op, ast.NotIn)  # unequal to every member
+            return NotImplemented
+        return NotImplemented
+
     def _cmp(self, op, l, r, node):
+        if isinstance(l, (_Val, _Str, _Seq)) or isinstance(r, (_Val, _Str, _Seq)):
+            known = self._sym_cmp(op, l, r)
+            if known is not NotImplemented:
+                return known
         if isinstance(op, (ast.Is, ast.IsNot)):
             if self._identity_known(l) and self._identity_known(r):
                 res = l is r or (isinstance(l, _EnumVal) and isinstance(r, _EnumVal) and l == r)
@@ -619,31 +797,47 @@ class _Interp:
             raise _Raised("TypeError", node)
 
     def e_JoinedStr(self, e, env):
-        out = ""
+        parts = []
         for v in e.values:
-            if isinstance(v, ast.FormattedValue):
-                x = self.eval(v.value, env)
-                if v.conversion == 114:
-                    x = "<arg>" if _has_opaque(x) else repr(x)
-                elif v.conversion == 115:
-                    x = str(x)
-                spec = self.eval(v.format_spec, env) if v.format_spec is not None else ""
-                try:
-                    out += format(x, spec)
-                except Exception:
-                    out += "<arg>"
-            else:
-                out += str(self.eval(v, env))
-        return out
+            parts.append(self.e_FormattedValue(v, env) if isinstance(v, ast.FormattedValue) else str(self.eval(v, env)))
+        return _mk_str(parts)
 
     def e_FormattedValue(self, e, env):
-        return format(self.eval(e.value, env))
+        x = self.eval(e.value, env)
+        spec = self.eval(e.format_spec, env) if e.format_spec is not None else ""
+        return self._text_of(x, spec, e.conversion)
+
+    def _text_of(self, x, spec="", conversion=-1):
+        """The text `format(x, spec)` as a term: a constant for constants of the code, the text term itself for text,
+        otherwise a hole."""
+        if isinstance(x, _Str) and not spec and conversion in (-1, 115):
+            return x
+        if _has_opaque(x) or _has_opaque(spec):
+            return _Obj("text", [x] + ([spec] if spec else []))
+        try:
+            if conversion == 114:
+                x = repr(x)
+            elif conversion == 115:
+                x = str(x)
+            elif conversion == 97:
+                x = ascii(x)
+            return format(x, spec)
+        except Exception:
+            raise _Raised("ValueError")
 
     def e_Subscript(self, e, env):
         base = self.eval(e.value, env)
         idx = self._index(e.slice, env)
-        if _opaque(base) or _has_opaque(idx):
-            return _Op("subscript")
+        if isinstance(base, _Str) and isinstance(idx, slice):
+            r = self._str_slice(base, idx)
+            if r is not NotImplemented:
+                return r
+        if isinstance(base, dict) and _opaque(idx) and any(k is idx for k in base):
+            return base[idx]  # the very term the code stored under
+        if _opaque(base) or _has_opaque(idx) or (isinstance(idx, slice) and any(_has_opaque(x) for x in (idx.start, idx.stop, idx.step))):
+            if isinstance(idx, slice):
+                return _Obj("slice", [base, idx.start, idx.stop, idx.step], node=e)
+            return _Obj("item", [base, idx], node=e)
         try:
             return base[idx]
         except Exception as ex:
@@ -656,6 +850,21 @@ class _Interp:
 
     def e_Slice(self, e, env):
         return self._index(e, env)
+
+    def _str_slice(self, t: _Str, idx: slice):
+        """S4: T[a:-b] with the cut points inside the leading / trailing constant segments."""
+        a, b, st = idx.start, idx.stop, idx.step
+        if st not in (None, 1) or not (a is None or (isinstance(a, int) and a >= 0)) or not (b is None or (isinstance(b, int) and b < 0)):
+            return NotImplemented
+        a, b = a or 0, -(b or 0)
+        if a > len(_str_lead(t)) or b > len(_str_trail(t)):
+            return NotImplemented
+        parts = list(t.parts)
+        if a:
+            parts[0] = parts[0][a:]
+        if b:
+            parts[-1] = parts[-1][:-b]
+        return _mk_str(parts)
 
     def e_NamedExpr(self, e, env):
         v = self.eval(e.value, env)
@@ -680,14 +889,20 @@ class _Interp:
         raise Unknown("starred expression")
 
     # comprehensions
-    def _comp(self, gens, env, emit):
+    def _comp(self, gens, env, emit, symbolic=None):
+        """Visit a comprehension; `symbolic` (a list) gets an entry when a generator ranges over a `_Seq`."""
+        symbolic = symbolic if symbolic is not None else []
+
         def rec(i, scope):
             if i == len(gens):
                 emit(scope)
                 return True
             g = gens[i]
             it = self.eval(g.iter, scope)
-            if _opaque(it):
+            if isinstance(it, _Seq):
+                it = it.items
+                symbolic.append(True)
+            elif _opaque(it):
                 return False
             for item in list(it):
                 self.assign(g.target, item, scope)
@@ -699,8 +914,10 @@ class _Interp:
         return rec(0, dict(env))
 
     def e_ListComp(self, e, env):
-        out = []
-        return out if self._comp(e.generators, env, lambda sc: out.append(self.eval(e.elt, sc))) else _Op("comprehension")
+        out, sym = [], []
+        if not self._comp(e.generators, env, lambda sc: out.append(self.eval(e.elt, sc)), sym):
+            return _Op("comprehension")
+        return _Seq(out) if sym else out  # one element per entry of the case analysis: again a symbolic sequence
 
     e_GeneratorExp = e_ListComp
 
@@ -811,7 +1028,7 @@ class _Interp:
             return obj
         if isinstance(fv, _FnRef):
             want = self.hooks.get("descend_func")
-            # a helper that is handed a builder object works on that object: evaluate it; anything else is a computation
+            # a helper that is handed a builder object works on that object: follow it; anything else is a computation
             # whose result stays opaque (value_to_string, the parsers ...)
             takes_block = any(isinstance(x, _Obj) and x.cls is not None for x in list(args) + list(kwargs.values()))
             if self.descend and (want(fv.func) if want is not None else takes_block):
@@ -819,6 +1036,12 @@ class _Interp:
             obj = _Obj(fv.func.qualname, args, kwargs, node)
             self._event(fv, "<call>", args, kwargs, node, result=obj)
             return obj
+        if isinstance(fv, _Attr) and isinstance(fv.base, _Str):
+            r = self._str_method(fv.base, fv.name, args, kwargs)
+            if r is not NotImplemented:
+                return r
+        if isinstance(fv, _Attr) and isinstance(fv.base, _Seq) and fv.name in ("copy", "__iter__") and not args:
+            return fv.base
         if isinstance(fv, _Attr):
             base = fv.base
             cname = base.cls if isinstance(base, _Obj) else base.name if isinstance(base, _ClsRef) else None
@@ -845,9 +1068,104 @@ class _Interp:
             return self._real_call(fv, args, kwargs, node)
         raise _Raised("TypeError", node)
 
+    def _str_method(self, t: _Str, name: str, args, kwargs):
+        """Methods of a text term that the lemmas decide; NotImplemented otherwise (the call stays a term)."""
+        if kwargs or any(_has_opaque(a) for a in args):
+            return NotImplemented
+        lead, trail = _str_lead(t), _str_trail(t)
+        if name == "partition" and len(args) == 1 and isinstance(args[0], str) and args[0] and args[0] in lead:
+            i = lead.index(args[0])  # S2
+            return (lead[:i], args[0], _mk_str([lead[i + len(args[0]):]] + t.parts[1:]))
+        if name == "split" and len(args) == 2 and isinstance(args[0], str) and args[0] and args[1] == 1 and args[0] in lead:
+            i = lead.index(args[0])  # S2
+            return [lead[:i], _mk_str([lead[i + len(args[0]):]] + t.parts[1:])]
+        if name in ("startswith", "endswith") and len(args) == 1 and isinstance(args[0], (str, tuple)):
+            seg = lead if name == "startswith" else trail
+            verdicts = []
+            for c in (args[0] if isinstance(args[0], tuple) else (args[0],)):
+                if not isinstance(c, str):
+                    return NotImplemented
+                if len(seg) >= len(c):
+                    verdicts.append(getattr(seg, name)(c))  # S6
+                else:
+                    agree = c.startswith(seg) if name == "startswith" else c.endswith(seg)
+                    verdicts.append(None if agree else False)
+            if any(v is True for v in verdicts):
+                return True
+            return False if all(v is False for v in verdicts) else NotImplemented
+        if name in ("lower", "upper", "casefold") and not args:
+            return _mk_str([getattr(q, name)() if isinstance(q, str) else _Obj(name, [q]) for q in t.parts])  # S5
+        if name == "replace" and len(args) == 2 and isinstance(args[0], str) and isinstance(args[1], str) and len(args[0]) == 1:
+            # replacing a single character acts character by character, hence segment by segment
+            return _mk_str([q.replace(args[0], args[1]) if isinstance(q, str) else _Obj("replace", [q, args[0], args[1]]) for q in t.parts])
+        if name == "format" or name == "join":
+            return NotImplemented
+        return NotImplemented
+
+    def _format_template(self, tmpl: str, args, kwargs):
+        """`tmpl.format(*args, **kwargs)` as a text term; the template is a constant of the code and is parsed, not run."""
+        import string
+
+        parts, auto = [], 0
+        try:
+            fields = list(string.Formatter().parse(tmpl))
+        except ValueError:
+            raise _Raised("ValueError")
+        for lit, field, spec, conv in fields:
+            parts.append(lit)
+            if field is None:
+                continue
+            if field == "":
+                key, auto = auto, auto + 1
+            elif field.isdigit():
+                key = int(field)
+            elif field.isidentifier():
+                key = field
+            else:
+                return _Obj("format", [tmpl] + list(args))  # attribute / index lookups inside the field: not modelled
+            if spec and ("{" in spec):
+                return _Obj("format", [tmpl] + list(args))
+            try:
+                x = args[key] if isinstance(key, int) else kwargs[key]
+            except (IndexError, KeyError):
+                raise _Raised("IndexError" if isinstance(key, int) else "KeyError")
+            parts.append(self._text_of(x, spec or "", {None: -1, "r": 114, "s": 115, "a": 97}[conv]))
+        return _mk_str(parts)
+
     def _real_call(self, fn, args, kwargs, node):
         if fn is isinstance and len(args) == 2:
             return self._isinstance(args[0], args[1])
+        owner = getattr(fn, "__self__", None)
+        symbolic = any(_has_opaque(a) for a in args) or any(_has_opaque(a) for a in kwargs.values())
+        if symbolic and isinstance(owner, str):
+            # a text method of a constant of the code applied to unknown operands: a term, never computed
+            if fn.__name__ == "format":
+                return self._format_template(owner, args, kwargs)
+            if fn.__name__ == "join" and len(args) == 1 and isinstance(args[0], (list, tuple)):
+                parts = []
+                for i, x in enumerate(args[0]):
+                    if not isinstance(x, (str, _Op)):
+                        raise _Raised("TypeError", node)
+                    parts += ([owner] if i else []) + [x if isinstance(x, (str, _Str)) else _Obj("text", [x])]
+                return _mk_str(parts)
+            return _Obj("str." + fn.__name__, [owner] + list(args), kwargs, node)
+        if symbolic and isinstance(owner, (bytes, bytearray)):
+            return _Obj("bytes." + fn.__name__, [owner] + list(args), kwargs, node)
+        if fn is str and len(args) == 1 and not kwargs and isinstance(args[0], _Op):
+            return args[0] if isinstance(args[0], _Str) else _Obj("str", args, node=node)
+        if fn is repr and len(args) == 1 and _has_opaque(args[0]):
+            return _Obj("repr", args, node=node)
+        if args and isinstance(args[0], _Seq) and (fn in (list, tuple, iter) or (fn in (sorted, reversed) and len(args[0].items) <= 1)):
+            return args[0]  # the same entries in the same order
+        if isinstance(owner, dict) and fn.__name__ in ("get", "pop", "setdefault") and args and _opaque(args[0]) and not any(k is args[0] for k in owner):
+            # lookup with a symbolic key: known only when the key is unequal to every key of the mapping
+            ne = ast.NotEq()
+            if any(_opaque(k) or self._sym_cmp(ne, args[0], k) is not True for k in owner):
+                return _Obj("dict." + fn.__name__, [owner] + list(args), kwargs, node)
+        if fn is dict and len(args) == 1 and not kwargs and isinstance(args[0], _Seq):
+            args = [list(args[0].items)]  # the mapping of the entries considered
+        if fn is enumerate and args and isinstance(args[0], _Seq):
+            return _Seq([(_Op("index"), x) for x in args[0].items])
         if fn is getattr and len(args) >= 2 and isinstance(args[1], str):
             try:
                 v = self.getattr(args[0], args[1], node)
@@ -867,26 +1185,33 @@ class _Interp:
                 return self.truth(args[0])
             if fn in (list, tuple, sorted, reversed, iter) and isinstance(args[0], _Op):
                 return _Obj(fn.__name__, args, kwargs, node, recv=args[0])  # the same items: keeps where they come from
-            return _Op(getattr(fn, "__name__", "call"))
+            return _Obj(getattr(fn, "__name__", "call"), args, kwargs, node)
         if fn is bool and args:
             return self.truth(args[0])
-        if fn is repr and args and _has_opaque(args[0]):
-            return _Op("repr")
         if fn in (any, all) and args and not _opaque(args[0]):
             vals = [self.truth(x) for x in args[0]]
             return fn(vals)
         if fn in (iter, next):
             raise Unknown("iterator protocol")
         try:
-            return fn(*args, **kwargs)
+            return fn(*args, **kwargs)  # constant folding / the code's own containers (their elements stay terms)
         except Exception as ex:
-            if any(_has_opaque(a) for a in args) or any(_has_opaque(a) for a in kwargs.values()):
-                return _Op("call")
+            if symbolic:
+                return _Obj(getattr(fn, "__name__", "call"), args, kwargs, node)
             raise _Raised(type(ex).__name__, node)
 
     def _isinstance(self, v, t):
         ts = list(t) if isinstance(t, tuple) else [t]
         res = False
+        if isinstance(v, _Str) or (isinstance(v, _Val) and v.kind is not None):
+            # type-tag fact of the symbol: a text / a value of builtin type `kind`
+            kt = str if isinstance(v, _Str) else _KIND_TYPES[v.kind]
+            for x in ts:
+                if isinstance(x, type):
+                    res = res or issubclass(kt, x)
+                elif not isinstance(x, (_ClsRef, _EnumCls)):
+                    return _Op("isinstance")
+            return res
         for x in ts:
             if isinstance(x, type):
                 if isinstance(v, _EnumVal):
@@ -914,7 +1239,7 @@ class _Interp:
         return res
 
     def invoke(self, fnode, args, kwargs, closure_env, modname=None):
-        """Evaluate a function of the package (or a nested function / lambda) on the given argument values."""
+        """Follow a function of the package (or a nested function / lambda) with its parameters bound to the given terms."""
         if self.depth >= _DEPTH_LIMIT:
             raise Unknown("call depth")
         saved_mod = (self.modname, self.mod, self._globals)
@@ -979,8 +1304,8 @@ class _Interp:
             if any(isinstance(x, ast.Starred) for x in t.elts):
                 raise Unknown("starred assignment")
             if _opaque(v):
-                for x in t.elts:
-                    self.assign(x, _Op("unpacked"), env)
+                for i, x in enumerate(t.elts):
+                    self.assign(x, _Op("unpacked") if isinstance(v, _Seq) else _Obj("item", [v, i]), env)
                 return
             try:
                 items = list(v)
@@ -1072,7 +1397,9 @@ class _Interp:
 
     def s_For(self, st, env):
         itv = self.eval(st.iter, env)
-        if _opaque(itv):
+        if isinstance(itv, _Seq):
+            items = list(itv.items)
+        elif _opaque(itv):
             h = self.hooks.get("iter")
             items = h(self, st, itv) if h is not None else None
             if items is None:
@@ -1096,24 +1423,26 @@ class _Interp:
             self.block(st.orelse, env)
 
     def s_While(self, st, env):
-        n = 0
-        while True:
-            tv = self.eval(st.test, env)
-            once = _opaque(tv) or isinstance(st.test, ast.Constant)
-            if not self.truth(tv):
-                self.block(st.orelse, env)
-                return
-            n += 1
-            try:
-                self.block(st.body, env)
-            except _Continue:
-                pass
-            except _Break:
-                return
-            if once:
-                return  # one symbolic iteration
-            if n > 1000:
-                raise Unknown("loop bound")
+        """The body is analysed once (one symbolic iteration); a loop whose test stays constant-foldable and true after
+        that would have to be run to be understood: not done."""
+        tv = self.eval(st.test, env)
+        if not self.truth(tv):
+            self.block(st.orelse, env)
+            return
+        try:
+            self.block(st.body, env)
+        except _Continue:
+            pass
+        except _Break:
+            return
+        if _opaque(tv) or isinstance(st.test, ast.Constant):
+            return
+        again = self.eval(st.test, env)
+        if _opaque(again):
+            return
+        if again:
+            raise Unknown("a while loop over constants of the code needs more than one iteration")
+        self.block(st.orelse, env)
 
     def s_With(self, st, env):
         for item in st.items:
@@ -1151,7 +1480,7 @@ class _Res:
 
 
 def _run_func(ctx, f, binding_factory, hooks=None, descend=True) -> List[_Res]:
-    """Evaluate package function `f` on every path; binding_factory(interp) -> positional argument values (fresh per path)."""
+    """Follow package function `f` on every path; binding_factory(walker) -> the terms its parameters are bound to."""
 
     def run(oracle):
         it = _Interp(ctx, f.module.name, oracle, hooks, descend)
@@ -1163,8 +1492,8 @@ def _run_func(ctx, f, binding_factory, hooks=None, descend=True) -> List[_Res]:
             return _Res(it, raised=r.name)
         except (Unknown, _Return, _Break, _Continue):
             raise
-        except Exception as e:  # a construct the evaluator mishandles: nothing is claimed
-            raise Unknown(f"evaluator failure {type(e).__name__}: {e}"[:120])
+        except Exception as e:  # a construct the walker mishandles: nothing is claimed
+            raise Unknown(f"walker failure {type(e).__name__}: {e}"[:120])
 
     return _paths(run)
 
@@ -1179,9 +1508,10 @@ def _settings_enum(ctx) -> Dict[str, int]:
 
 
 def _generate(ctx, items) -> List[_Res]:
-    """Evaluate C2Profile.from_beacon_config on a configuration whose settings are `items` = [(BeaconSetting member name,
-    value)], on every path.  The settings loop is located by role: the loop with a pair target over something obtained
-    from the configuration parameter.  Results carry flag "settings-loop" when it was found."""
+    """Walk C2Profile.from_beacon_config with its settings loop specialised to `items` = [(BeaconSetting member name,
+    symbolic value)] (case analysis over the enum; the configuration parameter itself stays a symbol), on every path.  The
+    settings loop is located by role: the loop with a pair target over something obtained from the configuration
+    parameter.  Results carry flag "settings-loop" when it was found.  The values are immutable terms shared by all paths."""
     f = ctx.repo.func("c2profile.C2Profile.from_beacon_config")
     enum = _settings_enum(ctx)
     ps = params(f.node)
@@ -1193,7 +1523,7 @@ def _generate(ctx, items) -> List[_Res]:
             if not (isinstance(st.target, (ast.Tuple, ast.List)) and len(st.target.elts) == 2 and all(isinstance(x, ast.Name) for x in st.target.elts)):
                 raise Unknown("the loop over the configuration does not bind a (setting, value) pair")
             it.flags.add("settings-loop")
-            return [(_EnumVal("BeaconSetting", k, enum[k]), copy.deepcopy(v)) for k, v in items]
+            return [(_EnumVal("BeaconSetting", k, enum[k]), v) for k, v in items]
         return None
 
     def binding(it):
@@ -1207,7 +1537,7 @@ def _generate(ctx, items) -> List[_Res]:
         paths = _run_func(ctx, f, binding, {"iter": on_iter})
     except Unknown as e:
         if "paths" in str(e) or "limit" in str(e) or "loop over the configuration" in str(e):
-            ctx._c13_generate_failure = str(e)  # a property of the function, not of the sample: do not try again
+            ctx._c13_generate_failure = str(e)  # a property of the function, not of the case: do not try again
         raise
     if not any("settings-loop" in r.flags for r in paths):
         ctx._c13_generate_failure = "the settings loop of from_beacon_config was not found"
@@ -1254,16 +1584,35 @@ def run(ctx):
     rep.explanation = (
         "Static analysis of C2Profile.from_beacon_config and the builder classes against the compiled grammar: every tree "
         "name a builder call site can emit is an alias of matching arity in the rule of the block it is emitted into; the "
-        "generator, the builder constructors and the BeaconGate / execute-list producers in beacon.py are evaluated by a "
-        "partial evaluator over the parsed AST on every member of their finite vocabularies (and on sample byte strings with "
-        "backslashes, quotes, control and high bytes): each produced string is run through the consumer and the emitted "
-        "builder call is looked up in the grammar (alias, keyword, arity); byte arguments must reach the blocks escape-encoded; "
-        "the http-get / http-post and x86 / x64 sibling settings must render the same program identically and as the "
-        "reference rendering; blocks are attached only when non-empty (CFG dominance)."
+        "generator, the builder constructors and the BeaconGate / execute-list producers in beacon.py are followed path by "
+        "path over the parsed AST with symbolic parameters, their dispatchers specialised per member of the finite "
+        "vocabularies of the code and the reference tables (BeaconSetting and InjectExecutor members, BeaconGate field and "
+        "group names, transform / recover opcode names, build selectors) with the entry's arguments kept symbolic: each "
+        "entry the producer can emit is taken through the consumer and the emitted builder call is looked up, as a term, in "
+        "the grammar (alias, keyword, arity); the term in which a byte argument reaches a block must be the argument itself "
+        "or repr(argument)[2:-1] (escape-encoded) and must not be a decoding; the http-get / http-post and x86 / x64 sibling "
+        "settings must render every kind of entry into equal terms and as the opcode tables prescribe; add_step / "
+        "add_termination attach the argument in both nullness cases as required; blocks are attached only when non-empty "
+        "(CFG dominance)."
     )
     rep.not_decided = ["equality of the parsed-back values for all configurations", "options the generator chooses to skip",
-                       "escaping of static header/parameter decorations (raw text on both sides of the round trip)"]
-    rep.trusted_base = ["lark grammar loader", "CPython ast", "reference BeaconGate/opcode tables", "the partial evaluator of rules/c13.py"]
+                       "escaping of static header/parameter decorations (raw text on both sides of the round trip)",
+                       "byte arguments that reach a block through any function other than identity, repr(b)[2:-1] or a decoding (undecided, not judged)",
+                       "interaction of several entries of one program beyond a BUILD entry followed by a step (order, repetition): "
+                       "only the per-entry effect and the kind of container the lines are collected in are judged",
+                       "the text rendering of the built tree (as_text / reconstructor): see C11 / C12"]
+    rep.trusted_base = ["lark grammar loader", "CPython ast", "reference BeaconGate/opcode/executor-spelling tables (csverif.tables, _CS_SPELLING, _ARG_EXECUTORS, _DECORATIONS)",
+                        "the symbolic walker of rules/c13.py (path-wise value flow; models builtin containers the code builds, nothing is computed from unknown data)",
+                        "summary of the ConfigBlock primitives used for `block.tree.children` tests: set_option / _enable / set_config_block add one child, a pair primitive one per line, "
+                        "set_non_empty_config_block one iff the child has children",
+                        "argument kinds of program entries: flag opcodes carry True, valued opcodes a bytes value, transform keys a bytes value",
+                        "text lemmas S1-S6 on concatenations with constant segments (substring of a segment; first occurrence inside the leading segment; equality refuted by "
+                        "prefix / suffix / constant length; slicing inside the outer segments; case mapping distributes; prefix / suffix decided by the outer segments)",
+                        "lemma E1: for b: bytes, repr(b)[2:-1] is the escape-encoded body of the bytes literal (every byte spelled as itself or as a backslash escape; that the STRING "
+                        "token builder value_to_string copes with the bare double quote / \\' a single-quoted literal can contain is the business of C11 / C12)",
+                        "lemma E2: b.decode(codec) / str(b, codec) leaves backslash, quote and control bytes as raw characters (not an escape-encoding)",
+                        "lemma K: a dict / set or a view of one holds one entry per key, so lines collected in it lose repeated names",
+                        "nullness / type-tag facts: a value that is not None is not `None`; a bytes / str / int value is not the object True / False and is unequal to values of unrelated builtin types"]
     g = Grammar(ctx.repo)
     r1(ctx, g)
     r2(ctx, g)
@@ -1356,6 +1705,26 @@ def _check_site(ctx, g: Grammar, f, cls: str, m: str, name: str, ccls: Optional[
         ctx.ob("R1", "GRAM", f, text, ok, f"{cls}.{m} emits {name!r} with {ar} string(s); rules {origins} " + (f"have it with arities {sorted(al[name])}" if name in al else "have no such alias"), node)
 
 
+def _build_selectors(ctx) -> Optional[Set[str]]:
+    """The block names a BUILD entry of a client transform program can carry, located by role in parse_transform_binary:
+    the constant strings of the mapping(s) that also hold the function's build-selector parameter, that parameter's
+    default, and the values bound to it in the pretty-printer table.  None when there is no such parameter."""
+    ptb = ctx.repo.func("beacon.parse_transform_binary")
+    tbl = ctx.repo.const("beacon.SETTING_TO_PRETTYFUNC")
+    sel: Set[str] = set()
+    dfl = param_defaults(ptb.node)
+    sel_params = [p for p in params(ptb.node) if isinstance(_c(dfl.get(p)), str)]
+    for p in sel_params:
+        sel.add(_c(dfl[p]))
+        for n2 in body_walk(ptb.node):
+            if isinstance(n2, ast.Dict) and any(isinstance(v, ast.Name) and v.id == p for v in n2.values):
+                sel.update(_c(v) for v in n2.values if isinstance(_c(v), str))
+        for v in (tbl.values if isinstance(tbl, ast.Dict) else []):
+            if isinstance(v, ast.Call) and isinstance(_c(kwarg(v, p)), str):
+                sel.add(_c(kwarg(v, p)))
+    return sel if sel_params else None
+
+
 def r1(ctx, g: Grammar):
     f = ctx.repo.func("c2profile.C2Profile.from_beacon_config")
     n = 0
@@ -1375,14 +1744,14 @@ def r1(ctx, g: Grammar):
         else:
             names = _const_names(f, _call_arg(c, 0, "option"))
         if names is None:
-            continue  # computed names: see the evaluation below, R2/R3/R5 and the build-selector check
+            continue  # computed names: see the per-member specialisation below, R2/R3/R5 and the build-selector check
         n += 1
         child = _call_arg(c, 1, "config_block") if m in ATTACH else None
         ccls = _block_class(ctx, f, child) if child is not None else None
         for name in names:
             _check_site(ctx, g, f, cls, m, name, ccls, c, seen)
-    # the same check on what the generator *does* for each single setting (value unknown: every branch on it is
-    # explored): covers names that come out of tables, helpers or computed expressions
+    # the same check on the settings loop specialised per BeaconSetting member (value symbolic: every branch on it is
+    # followed): covers names that come out of tables, helpers or computed expressions
     for k in sorted(_settings_enum(ctx)):
         try:
             paths = _generate(ctx, [(k, _Op("value"))])
@@ -1391,7 +1760,7 @@ def r1(ctx, g: Grammar):
         for res in paths:
             for ev in _prim_events(res, prims=PRIMS):
                 name = _ev_name(ev)
-                if isinstance(name, str) and "<arg>" not in name:
+                if isinstance(name, str):
                     child = _ev_value(ev) if ev.prim in ATTACH else None
                     before = len(seen)
                     _check_site(ctx, g, f, ev.recv.cls, ev.prim, name, child.cls if isinstance(child, _Obj) else None, ev.node, seen)
@@ -1412,23 +1781,11 @@ def r1(ctx, g: Grammar):
                 ccls = _block_class(ctx, f, k.value)
                 ok = (k.arg in ba) if ccls else (k.arg in al)
                 ctx.ob("R1", "GRAM", f, f"{cls}({k.arg}=...)", ok, f"constructor keyword {k.arg!r} is a {'block ' if ccls else ''}alias of {origins}={ok}", c)
-    # computed block names: the build selectors that parse_transform_binary can emit.  They are located by role: the
-    # constant strings of the mapping(s) that also hold the function's build-selector parameter, that parameter's
-    # default, and the values bound to it in the pretty-printer table.
+    # computed block names: the build selectors that parse_transform_binary can emit
     ptb = ctx.repo.func("beacon.parse_transform_binary")
-    tbl = ctx.repo.const("beacon.SETTING_TO_PRETTYFUNC")
-    sel: Set[str] = set()
-    dfl = param_defaults(ptb.node)
-    sel_params = [p for p in params(ptb.node) if isinstance(_c(dfl.get(p)), str)]
-    for p in sel_params:
-        sel.add(_c(dfl[p]))
-        for n2 in body_walk(ptb.node):
-            if isinstance(n2, ast.Dict) and any(isinstance(v, ast.Name) and v.id == p for v in n2.values):
-                sel.update(_c(v) for v in n2.values if isinstance(_c(v), str))
-        for v in (tbl.values if isinstance(tbl, ast.Dict) else []):
-            if isinstance(v, ast.Call) and isinstance(_c(kwarg(v, p)), str):
-                sel.add(_c(kwarg(v, p)))
-    if not sel_params:
+    sel = _build_selectors(ctx)
+    if sel is None:
+        sel = set()
         ctx.undecided("R1", "VOCAB", ptb, "build selectors", "parse_transform_binary has no string-valued selector parameter any more: the block names it emits cannot be located")
     ba = block_aliases_of(g, ["http_get_client_options"])
     for s in sorted(sel):
@@ -1495,12 +1852,12 @@ def r2(ctx, g: Grammar):
         n += 1
 
         def binding(it, s=s):
-            return ([_ClsRef("BeaconGateBlock")] if _is_classmethod(cons) else []) + [[s]]
+            return ([_ClsRef("BeaconGateBlock")] if _is_classmethod(cons) else []) + [_Seq([s], "option strings")]
 
         try:
             paths = _run_func(ctx, cons, binding)
         except Unknown as e:
-            ctx.undecided("R2", "VOCAB", cons, f"option {s}", f"cannot evaluate the consumer's name mapping: {e}")
+            ctx.undecided("R2", "VOCAB", cons, f"option {s}", f"cannot follow the consumer's name mapping: {e}")
             continue
         for res in paths:
             evs = _prim_events(res, cls="BeaconGateBlock", prims=PRIM_ARITY)
@@ -1525,10 +1882,11 @@ _ARG_EXECUTORS = {"CreateThread_", "CreateRemoteThread_"}  # executors that carr
 _CS_SPELLING = {"NtQueueApcThread_s": "NtQueueApcThread-s", "CreateThread_": "CreateThread", "CreateRemoteThread_": "CreateRemoteThread"}
 
 
-def _producer_strings(ctx, prod, enum_name: str, member: str) -> Optional[List[List[object]]]:
-    """What parse_execute_list puts out for one list entry whose executor byte decodes to `member`: the function is
-    evaluated with every construction `InjectExecutor(<byte>)` yielding that member; one loop iteration.  One list of
-    produced items per path that constructs the executor; None when no path does."""
+def _producer_strings(ctx, prod, enum_name: str, member: str) -> Optional[List[Tuple[Optional[str], List[object]]]]:
+    """What parse_execute_list puts out for one list entry whose executor byte decodes to `member`: the function is walked
+    with its input symbolic and every construction `InjectExecutor(<byte>)` specialised to that member (case analysis
+    over the enum); the loop body once.  One (raised, produced items) pair per path that constructs the executor; None
+    when no path does."""
     val = _enum_table(ctx)[enum_name][member]
 
     def on_enum(it, ecls, args):
@@ -1544,22 +1902,23 @@ def _producer_strings(ctx, prod, enum_name: str, member: str) -> Optional[List[L
         if "constructed" not in res.flags:
             continue
         if res.raised:
-            outs.append([f"<raises {res.raised}>"])
+            outs.append((res.raised, []))
             continue
         items = list(res.yields)
         if isinstance(res.ret, (list, tuple)):
             items += list(res.ret)
         elif res.ret is not None:
             raise Unknown("the producer returns " + _show(res.ret)[:40])
-        outs.append(items)
+        outs.append((None, items))
     return outs or None
 
 
-def _consumer_emission(ctx, s: str):
-    """(verdict detail) of from_beacon_config for an execute list [s]: the builder calls on ExecuteOptionsBlock objects
-    and whether that object is attached to a process-inject block."""
+def _consumer_emission(ctx, s):
+    """(verdict detail) of from_beacon_config for an execute list with the entry `s` (a constant or a text term of the
+    producer): the builder calls on ExecuteOptionsBlock objects and whether that object is attached to a process-inject
+    block."""
     out = []
-    for res in _generate(ctx, [("SETTING_PROCINJ_EXECUTE", [s])]):
+    for res in _generate(ctx, [("SETTING_PROCINJ_EXECUTE", _Seq([s], "execute list"))]):
         if "settings-loop" not in res.flags:
             raise Unknown("the settings loop of from_beacon_config was not found")
         evs = _prim_events(res, cls="ExecuteOptionsBlock", prims=PRIM_ARITY)
@@ -1572,25 +1931,27 @@ def r3(ctx, g: Grammar):
     prod = ctx.repo.func("beacon.parse_execute_list")
     cd = ctx.cdefs("beacon")["cs_struct"]
     members = [m for m, _v in cd.enum("InjectExecutor").members]
-    produced: List[Tuple[str, str]] = []
+    produced: List[Tuple[str, object]] = []
     examined = 0
     for m in members:
         examined += 1
         try:
             outs = _producer_strings(ctx, prod, "InjectExecutor", m)
         except Unknown as e:
-            ctx.undecided("R3", "VOCAB", prod, f"executor {m}", f"cannot evaluate parse_execute_list: {e}")
+            ctx.undecided("R3", "VOCAB", prod, f"executor {m}", f"cannot follow parse_execute_list: {e}")
             continue
         if outs is None:
             ctx.undecided("R3", "VOCAB", prod, f"executor {m}", "parse_execute_list does not construct an InjectExecutor from the input on any path")
             continue
         seen = set()
-        for items in outs:
-            if len(items) != 1 or not isinstance(items[0], str) or items[0].startswith("<raises"):
-                ctx.ob("R3", "VOCAB", prod, f"executor {m}", False, f"producer renders executor {m} as {_show(items)} (exactly one string expected)")
+        for raised, items in outs:
+            if raised or len(items) != 1 or not isinstance(items[0], (str, _Str)):
+                ctx.ob("R3", "VOCAB", prod, f"executor {m}", False,
+                       f"producer renders executor {m} as " + (f"<raises {raised}>" if raised else _show(items)[:300]) + " (exactly one string expected)")
                 continue
-            if items[0] not in seen:
-                seen.add(items[0])
+            key = _show(items[0])
+            if key not in seen:
+                seen.add(key)
                 produced.append((m, items[0]))
     f = ctx.repo.func("c2profile.C2Profile.from_beacon_config")
     fe = ctx.repo.func("c2profile.ExecuteOptionsBlock.from_execute_list")
@@ -1599,12 +1960,13 @@ def r3(ctx, g: Grammar):
     agree: List[str] = []
     agree_unknown: List[str] = []
     for m, s in produced:
+        shown = _template_text(s)
         want_kw = _CS_SPELLING.get(m, m)
         want_arity = 1 if m in _ARG_EXECUTORS else 0
         try:
             ems = _consumer_emission(ctx, s)
         except Unknown as e:
-            ctx.undecided("R3", "VOCAB", f, f"executor {m}", f"cannot evaluate from_beacon_config on the execute list [{s!r}]: {e}")
+            ctx.undecided("R3", "VOCAB", f, f"executor {m}", f"cannot follow from_beacon_config for the execute-list entry {shown!r}: {e}")
             continue
         ok = True
         details = []
@@ -1612,13 +1974,13 @@ def r3(ctx, g: Grammar):
         for raised, emitted, attached in ems:
             if raised:
                 ok = False
-                details.append(f"producer emits {s!r}; from_beacon_config raises {raised}")
+                details.append(f"producer emits {shown!r}; from_beacon_config raises {raised}")
             elif not emitted:
                 ok = False
-                details.append(f"producer emits {s!r}; consumer emits nothing: the executor is silently dropped from the profile")
+                details.append(f"producer emits {shown!r}; consumer emits nothing: the executor is silently dropped from the profile")
             elif len(emitted) > 1:
                 ok = False
-                details.append(f"producer emits {s!r}; consumer emits {emitted} (more than one statement)")
+                details.append(f"producer emits {shown!r}; consumer emits {emitted} (more than one statement)")
             else:
                 meth, name = emitted[0]
                 emitted_here = emitted[0]
@@ -1627,328 +1989,368 @@ def r3(ctx, g: Grammar):
                 ar = g.string_arity(r) if r is not None else None
                 good = r is not None and kw == want_kw and ar == want_arity and PRIM_ARITY.get(meth) == want_arity and attached
                 ok = ok and good
-                details.append(f"producer emits {s!r}; consumer calls {meth}({name!r}); grammar alias keyword={kw!r} arity={ar} (required keyword {want_kw!r}, arity {want_arity}); "
+                details.append(f"producer emits {shown!r}; consumer calls {meth}({_template_text(name)!r}); grammar alias keyword={kw!r} arity={ar} (required keyword {want_kw!r}, arity {want_arity}); "
                                f"execute block attached to process-inject={attached}")
-        key = f"executor {m}" if f"executor {m}" not in done else f"executor {m} as {s}"
+        key = f"executor {m}" if f"executor {m}" not in done else f"executor {m} as {shown}"
         done.add(f"executor {m}")
         ctx.ob("R3", "VOCAB", f, key, ok, "; ".join(sorted(set(details)))[:600])
-        # the sibling consumer ExecuteOptionsBlock.from_execute_list renders the same entry the same way
+        # the sibling consumer ExecuteOptionsBlock.from_execute_list renders the same entry the same way; an executor with an
+        # argument is handed to it as the pair (keyword, argument) - the argument symbolic
         if emitted_here is None:
             continue
         entry = s
-        if m in _ARG_EXECUTORS and " " in s:
-            entry = (s.split(" ", 1)[0], "<arg>")
+        if m in _ARG_EXECUTORS and isinstance(s, _Str):
+            entry = (want_kw, _Val("executor argument", "str"))
 
         def binding(it, entry=entry):
-            return ([_ClsRef("ExecuteOptionsBlock")] if _is_classmethod(fe) else []) + [[entry]]
+            return ([_ClsRef("ExecuteOptionsBlock")] if _is_classmethod(fe) else []) + [_Seq([entry], "execute list")]
 
         try:
             for res in _run_func(ctx, fe, binding):
                 got = [(ev.prim, _ev_name(ev)) for ev in _prim_events(res, cls="ExecuteOptionsBlock", prims=PRIM_ARITY)]
                 if res.raised or got != [emitted_here]:
-                    agree.append(f"{entry!r}: from_beacon_config emits {emitted_here}, from_execute_list " + (f"raises {res.raised}" if res.raised else f"emits {got}"))
+                    agree.append(f"{_show(entry)}: from_beacon_config emits {emitted_here}, from_execute_list " + (f"raises {res.raised}" if res.raised else f"emits {got}"))
         except Unknown as e:
-            agree_unknown.append(f"{entry!r}: {e}")
+            agree_unknown.append(f"{_show(entry)}: {e}")
     ctx.rep.count("executors", max(examined, len(produced)), floor=8)
     if agree_unknown and not agree:
-        ctx.undecided("R3", "AGREE", fe, "accepted executor names", "cannot evaluate from_execute_list: " + "; ".join(agree_unknown)[:300])
+        ctx.undecided("R3", "AGREE", fe, "accepted executor names", "cannot follow from_execute_list: " + "; ".join(agree_unknown)[:300])
     else:
         ctx.ob("R3", "AGREE", fe, "accepted executor names", not agree,
-               "from_execute_list and from_beacon_config render every executor the producer can emit with the same builder call" if not agree else "; ".join(agree)[:500])
+               "from_execute_list and from_beacon_config render every executor the producer can emit with the same builder call" if not agree else "; ".join(sorted(set(agree)))[:500])
 
 
 # ---------------------------------------------------------------------------- R4 / R5
-_NASTY = b'A\\B"C\x00\xff\'\n z'  # backslash, double quote, NUL, high byte, single quote, newline, space
-_SAMPLE_BYTES = {"PREPEND": _NASTY, "APPEND": b"", "HEADER": b"Cook\\ie", "PARAMETER": b'i"d'}
+# What each opcode of a client transform program means for the profile (reference: csverif.tables opcode tables).  The
+# rules below specialise the generator per opcode *name* - the argument of the entry stays a symbol - and compare the
+# builder calls that result, as terms, with this reading.
+_DECORATIONS = {"_HEADER": "header", "_HOSTHEADER": "header", "_PARAMETER": "parameter"}  # static lines of the client block
+_STAGE_TRANSFORM_KEYS = ("prepend", "append")  # entries of a process-inject transform (reference: transform-x86/x64 statements)
+_KEYED_TYPES = (dict, set, frozenset, type({}.items()), type({}.keys()), type({}.values()))
+
+# Lemmas on byte arguments (b: bytes):
+#  E1  repr(b)[2:-1] is an escape-encoding of b: repr(b) is b'..' or b".." whose body spells every byte as itself (printable
+#      ASCII other than the backslash and the delimiter) or as one of \\ \' \" \t \n \r \xNN; [2:-1] drops the two-character
+#      opener and the closing delimiter and leaves that body
+#  E2  b.decode(codec) / str(b, codec) is NOT an escape-encoding: a backslash, quote or control byte becomes that very character
+#  K   a dict / set (or a view of one) holds one entry per key: collecting lines in it collapses repeated names
 
 
-def _decode_profile_string(s: str) -> Optional[bytes]:
-    """Reference reading of the text between the quotes of a profile string (csverif.tables.ESCAPES), after what the
-    STRING token builder does with a str (escape bare double quotes, take the backslash off \\')."""
-    out = bytearray()
-    i = 0
-    while i < len(s):
-        ch = s[i]
-        if ch != "\\":
-            if not (0x20 <= ord(ch) < 0x7F):
-                return None  # raw control / non-ASCII character in profile text
-            out.append(ord(ch))
-            i += 1
-            continue
-        if i + 1 >= len(s):
-            return None
-        nx = s[i + 1]
-        if nx == "x":
-            h = s[i + 2:i + 4]
-            if len(h) != 2:
-                return None
-            try:
-                out.append(int(h, 16))
-            except ValueError:
-                return None
-            i += 4
-        elif nx == "u":
-            h = s[i + 2:i + 6]
-            try:
-                v = int(h, 16)
-            except ValueError:
-                return None
-            if len(h) != 4 or v > 0xFF:
-                return None
-            out.append(v)
-            i += 6
-        elif nx in tables.ESCAPES and tables.ESCAPES[nx] is not None:
-            out.append(tables.ESCAPES[nx])
-            i += 2
-        else:
-            return None
-    return bytes(out)
+def _depends_on(term, x, depth=0) -> bool:
+    """Does symbol `x` occur in the term?"""
+    if term is x:
+        return True
+    if depth > 10:
+        return False
+    if isinstance(term, _Attr):
+        return _depends_on(term.base, x, depth + 1)
+    if isinstance(term, _Str):
+        return any(_depends_on(q, x, depth + 1) for q in term.parts)
+    if isinstance(term, _Seq):
+        return any(_depends_on(q, x, depth + 1) for q in term.items)
+    if isinstance(term, _Obj):
+        return any(_depends_on(q, x, depth + 1) for q in list(term.args) + list(term.kwargs.values()) + [term.recv])
+    if isinstance(term, (list, tuple, set, frozenset)):
+        return any(_depends_on(q, x, depth + 1) for q in term)
+    if isinstance(term, dict):
+        return any(_depends_on(q, x, depth + 1) for q in list(term) + list(term.values()))
+    return False
 
 
-def _arg_kind(x, original: bytes) -> str:
-    """How a byte argument reaches a builder: 'bytes' (handed over raw: the STRING builder escape-encodes bytes),
-    'escaped' (a str that reads back as the original bytes), else a description of what is wrong."""
-    if isinstance(x, (bytes, bytearray)):
-        return "bytes" if bytes(x) == original else f"different bytes {bytes(x)!r}"
-    if isinstance(x, str):
-        dec = _decode_profile_string(x)
-        if dec == original:
+def _arg_kind(term, arg) -> str:
+    """How the symbolic byte argument `arg` reaches a builder, read off the term that is handed over:
+    'bytes' - the argument itself (the STRING builder escape-encodes bytes); 'escaped' - repr(arg)[2:-1] (lemma E1);
+    'decoded' - arg.decode(..) / str(arg, codec) (lemma E2: not escape-encoded); 'lost' - a term in which the argument
+    does not occur; 'unknown:..' - any other function of the argument (nothing is claimed)."""
+    if term is arg:
+        return "bytes"
+    if isinstance(term, _Obj) and term.callee == "slice" and len(term.args) == 4:
+        base, lo, hi, step = term.args
+        if isinstance(base, _Obj) and base.callee == "repr" and len(base.args) == 1 and base.args[0] is arg and not base.kwargs and \
+                lo == 2 and hi == -1 and step in (None, 1) and not _opaque(lo) and not _opaque(hi):
             return "escaped"
-        return f"unescaped text {x!r}" if dec is None else f"text that reads back as {dec!r}"
-    return "unknown:" + _show(x)[:40]
+    if isinstance(term, _Obj) and term.recv is arg and term.callee.endswith(".decode"):
+        return "decoded"
+    if isinstance(term, _Obj) and term.callee == "str" and len(term.args) + len(term.kwargs) >= 2 and term.args and term.args[0] is arg:
+        return "decoded"
+    if not _depends_on(term, arg):
+        return "lost"
+    return "unknown:" + _show(term)[:60]
 
 
-def _client_program() -> list:
-    return [
-        ("_HEADER", b"Accept: */*"), ("_PARAMETER", b"a=1"), ("_HEADER", b"Accept: text/html"), ("_HOSTHEADER", b"Host: example.org"),
-        ("_PARAMETER", b"a=2"), ("_PARAMETER", b"b=x=y"),
-        ("BUILD", "metadata"), ("BASE64", True), ("PREPEND", _SAMPLE_BYTES["PREPEND"]), ("APPEND", _SAMPLE_BYTES["APPEND"]), ("NETBIOSU", True),
-        ("HEADER", _SAMPLE_BYTES["HEADER"]),
-        ("BUILD", "output"), ("MASK", True), ("BASE64URL", True), ("NETBIOS", True), ("PARAMETER", _SAMPLE_BYTES["PARAMETER"]),
-    ]
+def _client_cases(ctx) -> List[Tuple[str, str, list, object]]:
+    """(case label, kind, entries, symbolic argument) for every member of the client-program vocabulary."""
+    cases = []
+    for k in sorted(tables.STEPS_LEN_ARG):
+        arg = _Val(f"bytes argument of {k}", "bytes")
+        cases.append((k, "decoration" if k in _DECORATIONS else "valued", [(k, arg)], arg))
+    flags = sorted(tables.STEPS_NO_ARG)
+    for k in flags:
+        cases.append((k, "flag", [(k, True)], None))
+    for s in sorted(_build_selectors(ctx) or ()):
+        cases.append((f"BUILD {s}", "build", [("BUILD", s), (flags[0], True)], None))
+    return cases
 
 
-def _reference_rendering(program) -> dict:
-    headers, prms, blocks, cur = [], [], collections.OrderedDict(), None
-    for k, v in program:
-        if k in ("_HEADER", "_HOSTHEADER"):
-            a, _s, b = v.decode("latin-1").partition(": ")
-            headers.append((a, b))
-        elif k == "_PARAMETER":
-            a, _s, b = v.decode("latin-1").partition("=")
-            prms.append((a, b))
-        elif k == "BUILD":
-            cur = v
-        elif v is True:
-            blocks.setdefault(cur, []).append(k.lower())
-        else:
-            blocks.setdefault(cur, []).append((k.lower(), v))
-    return {"header": headers, "parameter": prms, "blocks": blocks}
-
-
-def _concrete_list(x, what: str) -> list:
-    if _opaque(x) or x is None:
-        raise Unknown(f"{what} is not a known collection")
-    try:
-        return list(x)
-    except TypeError:
-        raise Unknown(f"{what} is not iterable")
-
-
-def _client_rendering(ctx, setting: str, program) -> dict:
-    """What from_beacon_config does with a client transform program: the receiving block, the pairs it gets per
-    statement name, the data-transform blocks attached to it (name -> steps) and where the receiver is attached.
-    Unknown tests elsewhere in the generator (e.g. on the content of other blocks) must not influence it."""
-    outs = []
-    parents = set()
-    for res in _generate(ctx, [(setting, program)]):
-        if "settings-loop" not in res.flags:
-            raise Unknown("the settings loop of from_beacon_config was not found")
-        o = _client_rendering_path(res)
-        parents.update(o.pop("parent") or [])
-        outs.append(o)
-    if len({_show(sorted(o.items())) for o in outs}) != 1:
-        raise Unknown("the rendering of a fully known program depends on unknown tests")
-    out = outs[0]
-    out["parent"] = sorted(parents)
-    return out
-
-
-def _client_rendering_path(res: _Res) -> dict:
+def _client_obs(res: _Res) -> dict:
+    """What one path of from_beacon_config does to client option blocks: the receiving block, its pair statements, the
+    data-transform blocks attached to it (name, steps term) and where the receiver is attached.  Everything as terms."""
     if res.raised:
-        return {"raised": res.raised, "parent": None}
-    # the receiver: the options block that is handed data-transform blocks / pairs while this setting is processed
+        return {"raised": res.raised, "parent": []}
     recvs = []
     for ev in _prim_events(res, cls="HttpOptionsBlock"):
         if ev.recv not in recvs:
             recvs.append(ev.recv)
-    out = {"raised": None, "receivers": len(recvs), "pairs": {}, "blocks": collections.OrderedDict(), "other": [], "parent": None}
-    if len(recvs) != 1:
-        return out
-    recv = recvs[0]
+    out = {"raised": None, "receivers": len(recvs), "pairs": [], "blocks": [], "other": [], "parent": []}
     for ev in _prim_events(res, cls="HttpOptionsBlock"):
         name = _ev_name(ev)
         if PRIM_ARITY.get(ev.prim) == 2:
-            pairs = [tuple(_concrete_list(p, "a pair")) for p in _concrete_list(_ev_value(ev), "the pair list")]
-            out["pairs"].setdefault(name, []).extend(pairs)
+            out["pairs"].append((name, _ev_value(ev)))
         elif ev.prim in ATTACH:
             child = _ev_value(ev)
             if isinstance(child, _Obj) and child.cls == "DataTransformBlock":
-                steps = child.kwargs.get("steps", child.args[0] if child.args else None)
-                lst = _concrete_list(steps, "the steps of a data-transform block")
-                if name in out["blocks"]:
-                    out["other"].append(f"block {name!r} attached twice")
-                out["blocks"][name] = [tuple(x) if isinstance(x, (list, tuple)) else x for x in lst]
+                out["blocks"].append((name, child.kwargs.get("steps", child.args[0] if child.args else None)))
             else:
-                out["other"].append(f"{ev.prim}({name!r}, {_show(child)[:40]})")
+                out["other"].append(f"{ev.prim}({_show(name)}, {_show(child)[:40]})")
         else:
-            out["other"].append(f"{ev.prim}({name!r})")
-    out["parent"] = sorted({(p.cls, n) for p, _pr, n in _attachments(res, recv)})
+            out["other"].append(f"{ev.prim}({_show(name)})")
+    for recv in recvs:
+        for p, _pr, n in _attachments(res, recv):
+            if (p.cls, n) not in out["parent"]:
+                out["parent"].append((p.cls, n))
     return out
 
 
-def _compare_rendering(got: dict, ref: dict, program) -> List[str]:
-    """Differences between an observed client rendering and the reference one (byte arguments compared by what they
-    read back as)."""
-    if got.get("raised"):
-        return [f"generation raises {got['raised']}"]
-    if got["receivers"] != 1:
-        return [f"{got['receivers']} client option blocks receive the program (exactly one expected)"]
-    diffs = []
-    for key in ("header", "parameter"):
-        if got["pairs"].get(key, []) != ref[key]:
-            diffs.append(f"{key} lines {got['pairs'].get(key, [])} (configuration states {ref[key]})")
-    for key in got["pairs"]:
-        if key not in ("header", "parameter"):
-            diffs.append(f"unexpected pair statement {key!r}")
-    if list(got["blocks"]) != list(ref["blocks"]) and sorted(map(str, got["blocks"])) != sorted(map(str, ref["blocks"])):
-        diffs.append(f"data-transform blocks {list(got['blocks'])} (configuration states {list(ref['blocks'])})")
-    for b, steps in ref["blocks"].items():
-        have = got["blocks"].get(b)
-        if have is None:
-            continue
-        shape = [x if isinstance(x, str) else x[0] if isinstance(x, tuple) and x else "?" for x in have]
-        want = [x if isinstance(x, str) else x[0] for x in steps]
-        if shape != want or any(isinstance(h, tuple) != isinstance(w, tuple) for h, w in zip(have, steps)):
-            diffs.append(f"block {b!r} has steps {shape} with arguments {[isinstance(h, tuple) for h in have]} (configuration states {want})")
-    diffs.extend(got["other"])
-    return diffs
+def _obs_signature(o: dict) -> str:
+    """Structural text of an observation (no object identities, the attachment point left out): what sibling settings
+    must agree on."""
+    if o.get("raised"):
+        return f"raises {o['raised']}"
+    pairs = [(n, v) for n, v in o["pairs"] if not (isinstance(v, (list, tuple)) and not v)]  # no lines: nothing is emitted
+    return _show([o["receivers"] if pairs or o["blocks"] or o["other"] else 0, pairs, [(n, v) for n, v in o["blocks"]], o["other"]])
 
 
-def _valued_steps(got: dict):
-    for b, steps in (got.get("blocks") or {}).items():
-        for x in steps:
-            if isinstance(x, tuple) and len(x) == 2:
-                yield b, x[0], x[1]
+def _pair_lines(value):
+    """The (name, value) lines in the collection handed to a pair primitive -> (lines, problem, unknown)."""
+    if isinstance(value, _KEYED_TYPES):
+        return None, "are collected in a dict/set (lemma K: a repeated name keeps only one line)", None
+    if not isinstance(value, (list, tuple)):
+        return None, None, f"the collection handed to the pair statement is not a list the code built ({_show(value)[:60]})"
+    lines = []
+    for x in value:
+        if not isinstance(x, (list, tuple)) or len(x) != 2:
+            return None, None, f"an element of the pair list is not a (name, value) pair ({_show(x)[:60]})"
+        lines.append(tuple(x))
+    return lines, None, None
 
 
-def _procinj_rendering(ctx, key: str, prepend: bytes, append: bytes) -> dict:
-    outs = []
-    parents = []
-    for res in _generate(ctx, [(key, [("append", append), ("prepend", prepend)])]):
-        if "settings-loop" not in res.flags:
-            raise Unknown("the settings loop of from_beacon_config was not found")
-        out = {"raised": res.raised, "options": []}
-        for ev in _prim_events(res, cls="StageTransformBlock"):
-            out["options"].append((ev.prim, _ev_name(ev), _ev_value(ev)))
-            for p, _pr, n in _attachments(res, ev.recv):
-                if (p.cls, n) not in parents:
-                    parents.append((p.cls, n))
-        outs.append(out)
-    if len({_show(sorted(o.items())) for o in outs}) != 1:
-        raise Unknown("the rendering of a fully known transform depends on unknown tests")
-    outs[0]["parent"] = parents
-    return outs[0]
+def _case_diffs(label: str, kind: str, entries, arg, o: dict) -> Tuple[List[str], List[str]]:
+    """Differences between what a path does for one vocabulary case and the reading of that opcode -> (differences,
+    things that could not be read)."""
+    if o.get("raised"):
+        return [f"{label}: generation raises {o['raised']}"], []
+    if o["receivers"] > 1:
+        return [f"{label}: {o['receivers']} client option blocks receive the entry (exactly one expected)"], []
+    diffs, unknown = [f"{label}: {x}" for x in o["other"]], []
+    opcode = entries[-1][0]
+    if kind == "decoration":
+        stmt = _DECORATIONS[opcode]
+        lines = []
+        for name, value in o["pairs"]:
+            got, problem, unk = _pair_lines(value)
+            if got == []:
+                continue  # a pair statement with no lines emits nothing
+            if name != stmt:
+                diffs.append(f"{label}: emitted as pair statement {_show(name)} (the configuration states a {stmt} line)")
+                continue
+            if problem:
+                diffs.append(f"{label}: the {stmt} lines {problem}")
+            elif unk:
+                unknown.append(f"{label}: {unk}")
+            else:
+                lines.extend(got)
+        if not diffs and not unknown:
+            if len(lines) != 1:
+                diffs.append(f"{label}: {len(lines)} {stmt} line(s) emitted for one entry of the program (exactly one expected)")
+            elif not all(_depends_on(x, arg) for x in lines[0]):
+                diffs.append(f"{label}: the {stmt} line {_show(lines[0])[:80]} is not made from the entry's argument")
+        if o["blocks"]:
+            diffs.append(f"{label}: a data-transform block is attached for a static {stmt} line")
+        return diffs, unknown
+    for name, value in o["pairs"]:
+        if _pair_lines(value)[0] != []:  # a pair statement with no lines emits nothing
+            diffs.append(f"{label}: unexpected pair statement {_show(name)}")
+    if len(o["blocks"]) != 1:
+        diffs.append(f"{label}: {len(o['blocks'])} data-transform blocks attached (exactly one expected: the step is dropped or duplicated)")
+        return diffs, unknown
+    bname, steps = o["blocks"][0]
+    if kind == "build" and bname != entries[0][1]:
+        diffs.append(f"{label}: the block is attached as {_show(bname)} (the BUILD entry names it {entries[0][1]!r})")
+    if not isinstance(steps, (list, tuple)):
+        unknown.append(f"{label}: the steps of the data-transform block are not a list the code built ({_show(steps)[:60]})")
+        return diffs, unknown
+    want = opcode.lower()
+    if kind in ("flag", "build"):
+        if list(steps) != [want]:
+            diffs.append(f"{label}: steps {_show(list(steps))[:80]} (the configuration states the flag step {want!r})")
+    else:
+        st = steps[0] if len(steps) == 1 else None
+        if not isinstance(st, (list, tuple)) or len(st) != 2 or st[0] != want:
+            diffs.append(f"{label}: steps {_show(list(steps))[:80]} (the configuration states the step {want!r} with one argument)")
+        elif not _depends_on(st[1], arg):
+            diffs.append(f"{label}: the argument of step {want!r} is {_show(st[1])[:60]}: not made from the entry's argument")
+    return diffs, unknown
+
+
+def _step_arg_terms(o: dict, name: str) -> list:
+    out = []
+    for _b, steps in o.get("blocks") or []:
+        if isinstance(steps, (list, tuple)):
+            out += [x[1] for x in steps if isinstance(x, (list, tuple)) and len(x) == 2 and x[0] == name]
+    return out
+
+
+def _client_analysis(ctx, setting: str) -> dict:
+    """Case analysis of from_beacon_config over the client-program vocabulary for one setting:
+    label -> {"kind", "entries", "arg", "paths": [observation per path]} (or {"unknown": reason})."""
+    out = collections.OrderedDict()
+    for label, kind, entries, arg in _client_cases(ctx):
+        try:
+            paths = _generate(ctx, [(setting, _Seq(entries, "client program"))])
+            if any("settings-loop" not in r.flags for r in paths):
+                raise Unknown("the settings loop of from_beacon_config was not found")
+            out[label] = {"kind": kind, "entries": entries, "arg": arg, "paths": [_client_obs(r) for r in paths]}
+        except Unknown as e:
+            out[label] = {"unknown": str(e)}
+    return out
+
+
+def _procinj_analysis(ctx, setting: str) -> dict:
+    """The same for a process-inject transform setting: key -> {"arg", "paths": [(raised, [(prim, name, value term)], parents)]}."""
+    out = collections.OrderedDict()
+    for k in _STAGE_TRANSFORM_KEYS:
+        arg = _Val(f"bytes argument of {k}", "bytes")
+        try:
+            paths = []
+            for res in _generate(ctx, [(setting, _Seq([(k, arg)], "transform"))]):
+                if "settings-loop" not in res.flags:
+                    raise Unknown("the settings loop of from_beacon_config was not found")
+                opts, parents = [], []
+                for ev in _prim_events(res, cls="StageTransformBlock"):
+                    opts.append((ev.prim, _ev_name(ev), _ev_value(ev)))
+                    for p, _pr, n in _attachments(res, ev.recv):
+                        if (p.cls, n) not in parents:
+                            parents.append((p.cls, n))
+                paths.append((res.raised, opts, parents))
+            out[k] = {"arg": arg, "paths": paths}
+        except Unknown as e:
+            out[k] = {"unknown": str(e)}
+    return out
 
 
 def r4_r5(ctx):
     f = ctx.repo.func("c2profile.C2Profile.from_beacon_config")
-    program = _client_program()
-    ref = _reference_rendering(program)
-    rendered = {}
+    client = {}
     n = 0
     for label in ("SETTING_C2_REQUEST", "SETTING_C2_POSTREQ"):
-        try:
-            got = rendered[label] = _client_rendering(ctx, label, program)
-        except Unknown as e:
-            rendered[label] = None
-            n += 1
-            ctx.undecided("R4", "TAINT", f, f"{label} valued steps", f"cannot evaluate from_beacon_config on a sample client program: {e}")
-            continue
-        found = {}
-        for b, name, x in _valued_steps(got):
-            found.setdefault(name, []).append(x)
+        an = client[label] = _client_analysis(ctx, label)
         for name in ("prepend", "append", "header", "parameter"):
             n += 1
-            if name not in found:
-                ctx.undecided("R4", "TAINT", f, f"{label} valued step {name}", f"the {name} step of the sample program does not reach a data-transform block (see R5)")
+            case = an.get(name.upper())
+            if case is None or "unknown" in case:
+                ctx.undecided("R4", "TAINT", f, f"{label} valued step {name}", "cannot follow from_beacon_config for a program entry " + name.upper() + ": " + (case or {}).get("unknown", "not an opcode of the reference tables"))
                 continue
-            kinds = sorted({_arg_kind(x, _SAMPLE_BYTES[name.upper()]) for x in found[name]})
-            ok = all(k in ("bytes", "escaped") for k in kinds)
-            ctx.ob("R4", "TAINT", f, f"{label} valued step {name}", ok,
-                   f"byte argument {_SAMPLE_BYTES[name.upper()]!r} reaches the data-transform block as {kinds}: " +
-                   ("escape-encoded (raw bytes for the STRING builder, or text that reads back as the same bytes)" if ok else
-                    "NOT escape-encoded - a backslash, quote+backslash or control byte yields invalid or unfaithful profile text"))
+            terms = [t for o in case["paths"] for t in _step_arg_terms(o, name)]
+            kinds = sorted({_arg_kind(t, case["arg"]) for t in terms})
+            if "decoded" in kinds:
+                ctx.ob("R4", "TAINT", f, f"{label} valued step {name}", False,
+                       f"the byte argument of a {name.upper()} entry reaches the data-transform block as {[_show(t)[:60] for t in terms][:2]} ({kinds}): decoded text, NOT escape-encoded "
+                       "(lemma E2) - a backslash, quote or control byte yields invalid or unfaithful profile text")
+            elif not kinds or any(k not in ("bytes", "escaped") for k in kinds):
+                ctx.undecided("R4", "TAINT", f, f"{label} valued step {name}",
+                              f"the argument of the {name} step does not reach a data-transform block in a form the rule knows ({kinds or 'no such step'}; see R5)")
+            else:
+                ctx.ob("R4", "TAINT", f, f"{label} valued step {name}", True,
+                       f"the byte argument of a {name.upper()} entry reaches the data-transform block as {kinds}: escape-encoded (the raw bytes, which the STRING builder encodes, or repr(arg)[2:-1], lemma E1)")
     ctx.rep.count("valued_step_sites", n, floor=2)
     # process-inject transforms
     pi = {}
     for key in ("SETTING_PROCINJ_TRANSFORM_X86", "SETTING_PROCINJ_TRANSFORM_X64"):
-        try:
-            got = pi[key] = _procinj_rendering(ctx, key, _NASTY, b"tail\\")
-        except Unknown as e:
-            pi[key] = None
-            ctx.undecided("R4", "TAINT", f, f"{key} arguments", f"cannot evaluate from_beacon_config on a sample transform: {e}")
+        an = pi[key] = _procinj_analysis(ctx, key)
+        unknown = [f"{k}: {c['unknown']}" for k, c in an.items() if "unknown" in c]
+        if unknown:
+            ctx.undecided("R4", "TAINT", f, f"{key} arguments", "cannot follow from_beacon_config for a transform entry: " + "; ".join(unknown)[:300])
             continue
-        want = {"prepend": _NASTY, "append": b"tail\\"}
-        seen = {}
-        for prim, name, x in got["options"]:
-            if prim == "set_option" and name in want:
-                seen[name] = _arg_kind(x, want[name])
-        ok = not got["raised"] and set(seen) == set(want) and all(k in ("bytes", "escaped") for k in seen.values())
-        ctx.ob("R4", "TAINT", f, f"{key} arguments", ok,
-               "prepend/append bytes are escape-encoded before set_option" if ok else f"prepend/append bytes reach set_option as {seen} (raised={got['raised']}): not escape-encoded or dropped")
+        seen, raised = {}, []
+        for k, c in an.items():
+            raised += [r for r, _o, _p in c["paths"] if r]
+            ks = {_arg_kind(x, c["arg"]) for _r, opts, _p in c["paths"] for prim, name, x in opts if prim == "set_option" and name == k}
+            seen[k] = sorted(ks)
+        if raised:
+            ctx.ob("R4", "TAINT", f, f"{key} arguments", False, f"generation raises {sorted(set(raised))} for a prepend/append entry of the transform")
+        elif any("decoded" in ks for ks in seen.values()):
+            ctx.ob("R4", "TAINT", f, f"{key} arguments", False, f"prepend/append bytes reach set_option as {seen}: decoded text, not escape-encoded (lemma E2)")
+        elif any(not ks or any(x not in ("bytes", "escaped") for x in ks) for ks in seen.values()):
+            ctx.undecided("R4", "TAINT", f, f"{key} arguments", f"the prepend/append arguments reach set_option as {seen}: a form the rule does not know (or not at all)")
+        else:
+            ctx.ob("R4", "TAINT", f, f"{key} arguments", True, f"prepend/append bytes are escape-encoded before set_option ({seen}; lemma E1)")
     # ---- R5 siblings
-    a, b = rendered.get("SETTING_C2_REQUEST"), rendered.get("SETTING_C2_POSTREQ")
-    for label, got, parent in (("SETTING_C2_REQUEST", a, "HttpGetBlock"), ("SETTING_C2_POSTREQ", b, "HttpPostBlock")):
-        if got is None:
-            continue
-        diffs = _compare_rendering(got, ref, program)
-        if not diffs and got["parent"] != [(parent, "client")]:
-            diffs.append(f"the receiving block is attached as {got['parent']} (required: client of a {parent})")
-        ctx.ob("R5", "AGREE", f, f"{label} rendering", not diffs,
-               "a sample program (repeated headers and parameters, two blocks, flag and valued steps) is rendered statement for statement into the client block" if not diffs else
-               "sample program rendered unfaithfully: " + "; ".join(diffs)[:500])
-    if a is None or b is None:
-        ctx.undecided("R5", "AGREE", f, "SETTING_C2_REQUEST ~ SETTING_C2_POSTREQ", "one of the client branches could not be evaluated")
+    for label, parent in (("SETTING_C2_REQUEST", "HttpGetBlock"), ("SETTING_C2_POSTREQ", "HttpPostBlock")):
+        diffs, unknown = [], []
+        for case_label, case in client[label].items():
+            if "unknown" in case:
+                unknown.append(f"{case_label}: {case['unknown']}")
+                continue
+            for o in case["paths"]:
+                d, u = _case_diffs(case_label, case["kind"], case["entries"], case["arg"], o)
+                if not d and not u and o["parent"] != [(parent, "client")]:
+                    d.append(f"{case_label}: the receiving block is attached as {o['parent']} (required: client of a {parent})")
+                diffs += [x for x in d if x not in diffs]
+                unknown += [x for x in u if x not in unknown]
+        if diffs:
+            ctx.ob("R5", "AGREE", f, f"{label} rendering", False, "program entries rendered unfaithfully: " + "; ".join(diffs)[:500])
+        elif unknown:
+            ctx.undecided("R5", "AGREE", f, f"{label} rendering", "cannot read what from_beacon_config does with a program entry: " + "; ".join(unknown)[:400])
+        else:
+            ctx.ob("R5", "AGREE", f, f"{label} rendering", True,
+                   f"each of the {len(client[label])} kinds of program entry (static header/parameter lines, flag steps, valued steps, BUILD selectors; arguments symbolic) "
+                   f"is rendered into the one statement the opcode tables prescribe, in the client block of the {parent}")
+    a, b = client["SETTING_C2_REQUEST"], client["SETTING_C2_POSTREQ"]
+    if any("unknown" in c for c in list(a.values()) + list(b.values())):
+        ctx.undecided("R5", "AGREE", f, "SETTING_C2_REQUEST ~ SETTING_C2_POSTREQ", "one of the client branches could not be followed for every program entry")
     else:
-        def norm(got):
-            if got.get("raised"):
-                return {"raised": got["raised"]}
-            return {"receivers": got["receivers"], "pairs": got["pairs"], "other": got["other"],
-                    "blocks": [(k, [(x[0], _arg_kind(x[1], _SAMPLE_BYTES.get(str(x[0]).upper(), b"?"))) if isinstance(x, tuple) and len(x) == 2 else x for x in v])
-                               for k, v in got["blocks"].items()]}
-        na, nb = norm(a), norm(b)
-        diffs = [k for k in sorted(set(na) | set(nb)) if na.get(k) != nb.get(k)]
+        diffs = []
+        for case_label in a:
+            sa, sb = sorted(_obs_signature(o) for o in a[case_label]["paths"]), sorted(_obs_signature(o) for o in b[case_label]["paths"])
+            if sa != sb:
+                diffs.append(f"{case_label}: get={sa} post={sb}")
         ctx.ob("R5", "AGREE", f, "SETTING_C2_REQUEST ~ SETTING_C2_POSTREQ", not diffs,
-               "the http-get and http-post client settings render the same program identically (decorations, blocks, flag steps, valued-step escaping)" if not diffs else
-               f"sibling settings differ in {diffs}: " + "; ".join(f"{k}: get={na.get(k)} post={nb.get(k)}" for k in diffs)[:400])
-    x86, x64 = pi.get("SETTING_PROCINJ_TRANSFORM_X86"), pi.get("SETTING_PROCINJ_TRANSFORM_X64")
-    if x86 is None or x64 is None:
-        ctx.undecided("R5", "AGREE", f, "PROCINJ_TRANSFORM_X86 ~ X64", "one of the process-inject transform settings could not be evaluated")
+               "the http-get and http-post client settings render every kind of program entry into the same terms (decorations, blocks, flag steps, valued-step escaping)" if not diffs else
+               "sibling settings differ: " + "; ".join(diffs)[:500])
+    x86, x64 = pi["SETTING_PROCINJ_TRANSFORM_X86"], pi["SETTING_PROCINJ_TRANSFORM_X64"]
+    if any("unknown" in c for c in list(x86.values()) + list(x64.values())):
+        ctx.undecided("R5", "AGREE", f, "PROCINJ_TRANSFORM_X86 ~ X64", "one of the process-inject transform settings could not be followed")
     else:
-        same = x86["raised"] == x64["raised"] and [(p, nm, _show(x)) for p, nm, x in x86["options"]] == [(p, nm, _show(x)) for p, nm, x in x64["options"]]
-        names = x86["parent"] == [("ProcessInjectBlock", "transform_x86")] and x64["parent"] == [("ProcessInjectBlock", "transform_x64")]
+        def sig(an):
+            return {k: sorted(_show([r, [(p, nm, x) for p, nm, x in opts]]) for r, opts, _p in c["paths"]) for k, c in an.items()}
+
+        def parents(an):
+            return sorted({p for c in an.values() for _r, _o, ps in c["paths"] for p in ps})
+
+        same = sig(x86) == sig(x64)
+        names = parents(x86) == [("ProcessInjectBlock", "transform_x86")] and parents(x64) == [("ProcessInjectBlock", "transform_x64")]
         ok = same and names
         ctx.ob("R5", "AGREE", f, "PROCINJ_TRANSFORM_X86 ~ X64", ok,
-               "the two process-inject transform settings render the same transform identically, each under its own block name" if ok else
-               f"the x86 and x64 process-inject transform settings differ: x86={x86['options']} attached {x86['parent']}; x64={x64['options']} attached {x64['parent']}"[:500])
+               "the two process-inject transform settings render a prepend / append entry into the same terms, each under its own block name" if ok else
+               f"the x86 and x64 process-inject transform settings differ: x86={sig(x86)} attached {parents(x86)}; x64={sig(x64)} attached {parents(x64)}"[:500])
     dns = {}
     unknown = []
     keys = sorted(k[len("SETTING_DNS_BEACON_"):] for k in _settings_enum(ctx) if k.startswith("SETTING_DNS_BEACON_"))
+    value = _Val("value of the setting")
     for key in keys:
         try:
             per_path = []
-            for res in _generate(ctx, [("SETTING_DNS_BEACON_" + key, "dns.example.org")]):
+            for res in _generate(ctx, [("SETTING_DNS_BEACON_" + key, value)]):
                 if "settings-loop" not in res.flags:
                     raise Unknown("the settings loop of from_beacon_config was not found")
                 per_path.append((res.raised, [(ev.recv.cls, ev.prim, _ev_name(ev), _ev_value(ev)) for ev in _prim_events(res, prims=PRIM_ARITY)]))
@@ -1956,12 +2358,16 @@ def r4_r5(ctx):
         except Unknown as e:
             unknown.append(f"{key}: {e}")
     if unknown:
-        ctx.undecided("R5", "AGREE", f, "DNS_BEACON_* siblings", "cannot evaluate from_beacon_config: " + "; ".join(unknown)[:300])
+        ctx.undecided("R5", "AGREE", f, "DNS_BEACON_* siblings", "cannot follow from_beacon_config: " + "; ".join(unknown)[:300])
     else:
-        bad = {k: v for k, v in dns.items() if any(p != (None, [("DnsBeaconBlock", "set_option", k.lower(), "dns.example.org")]) for p in v)}
+        def right(k, p):
+            raised, evs = p
+            return not raised and len(evs) == 1 and evs[0][:3] == ("DnsBeaconBlock", "set_option", k.lower()) and evs[0][3] is value
+
+        bad = {k: v for k, v in dns.items() if not all(right(k, p) for p in v)}
         ok = len(dns) >= 6 and not bad
         ctx.ob("R5", "AGREE", f, "DNS_BEACON_* siblings", ok,
-               f"each of the {len(dns)} DNS subhost settings is emitted under its own lower-cased name into the dns-beacon block" if ok else f"DNS subhost settings not emitted under their own name: {_show(bad)[:400]}")
+               f"each of the {len(dns)} DNS subhost settings is emitted, with its (symbolic) value, under its own lower-cased name into the dns-beacon block" if ok else f"DNS subhost settings not emitted under their own name: {_show(bad)[:400]}")
 
 
 # ---------------------------------------------------------------------------- R6
@@ -2091,7 +2497,7 @@ def r6(ctx):
 
 # ---------------------------------------------------------------------------- R9 / R8
 def _tree_parts(v):
-    """(name, children) of a `Tree(name, children)` construction observed by the evaluator, else None."""
+    """(name, children) of a `Tree(name, children)` construction term, else None."""
     if isinstance(v, _Obj) and v.callee.split(".")[-1] == "Tree":
         name = v.args[0] if v.args else v.kwargs.get("data")
         children = v.args[1] if len(v.args) > 1 else v.kwargs.get("children")
@@ -2115,8 +2521,9 @@ def _find_tree(v, name: str, depth=0):
 
 
 def _dt_statements(ctx, steps_value) -> Tuple[Optional[str], list, list]:
-    """Build DataTransformBlock(steps=steps_value) with the evaluator and read the block's tree: -> (raised, transform
-    statements, termination statements), each statement as (name, number of children)."""
+    """Follow DataTransformBlock.__init__ with the steps parameter bound to `steps_value` (a `_Seq` of one vocabulary
+    entry, argument symbolic) and then the `tree` property, and read the tree term: -> (raised, transform statements,
+    termination statements), each statement as (name, number of children)."""
     init = ctx.repo.func("c2profile.DataTransformBlock.__init__")
     if not ctx.repo.has_func("c2profile.DataTransformBlock.tree"):
         raise Unknown("DataTransformBlock.tree is not a method any more")
@@ -2127,14 +2534,14 @@ def _dt_statements(ctx, steps_value) -> Tuple[Optional[str], list, list]:
         it = _Interp(ctx, "c2profile", oracle)
         me = _Sym(params(init.node)[0], cls="DataTransformBlock")
         try:
-            it.invoke(init.node, [me, copy.deepcopy(steps_value)], {}, None)
+            it.invoke(init.node, [me, steps_value], {}, None)
             tree = it.invoke(prop.node, [me], {}, None)
         except _Raised as r:
             return (r.name, None)
         except (Unknown, _Return, _Break, _Continue):
             raise
-        except Exception as e:  # a construct the evaluator mishandles: nothing is claimed
-            raise Unknown(f"evaluator failure {type(e).__name__}: {e}"[:120])
+        except Exception as e:  # a construct the walker mishandles: nothing is claimed
+            raise Unknown(f"walker failure {type(e).__name__}: {e}"[:120])
         return (None, tree)
 
     for raised, tree in _paths(run):
@@ -2169,12 +2576,12 @@ def r9(ctx, g):
     flags = sorted({n.lower() for n in tables.STEPS_NO_ARG} | {n.lower() for n, has in tables.RECOVER_STEPS.items() if not has})
     valued = sorted({n.lower() for n in tables.STEPS_LEN_ARG if not n.startswith("_")} | {n.lower() for n, has in tables.RECOVER_STEPS.items() if has})
     n = 0
-    for name, item, ar in [(x, x, 0) for x in flags] + [(x, (x, "v"), 1) for x in valued]:
+    for name, item, ar in [(x, x, 0) for x in flags] + [(x, (x, _Val("step argument")), 1) for x in valued]:
         n += 1
         try:
-            raised, steps, term = _dt_statements(ctx, [item])
+            raised, steps, term = _dt_statements(ctx, _Seq([item], "steps"))
         except Unknown as e:
-            ctx.undecided("R9", "VOCAB", f, f"step {name}", f"cannot evaluate DataTransformBlock(steps=[{item!r}]): {e}")
+            ctx.undecided("R9", "VOCAB", f, f"step {name}", f"cannot follow DataTransformBlock.__init__ for the step {_show(item)}: {e}")
             continue
         out = [("transform", a, b) for a, b in steps] + [("termination", a, b) for a, b in term]
         ok = not raised and len(out) == 1
@@ -2192,18 +2599,24 @@ def r9(ctx, g):
 
 def r8(ctx):
     """DataTransformBlock.add_step / add_termination: an argument is attached iff it is not None (empty arguments are
-    legal), and the two siblings agree."""
+    legal), and the two siblings agree.  Nullness case analysis on the value parameter: the literal None, and a symbol
+    known to be not None (nothing else known: its truth value stays open, so `if value:` splits into two paths)."""
     a = ctx.repo.func("c2profile.DataTransformBlock.add_step")
     b = ctx.repo.func("c2profile.DataTransformBlock.add_termination")
-    samples = [None, "", "x", b"", b"\\\x00"]
     shapes = {}
     for gfn in (a, b):
         obs = []
         bad = []
         unknown = None
-        for v in samples:
+        ps = params(gfn.node)
+        if len(ps) < 3:
+            ctx.undecided("R8", "AGREE", gfn, "argument attached iff not None", f"{gfn.qualname} does not take (self, statement name, argument) any more")
+            shapes[gfn.qualname] = None
+            continue
+        opt = _Val("statement name", "str")
+        for case, v in (("None", None), ("not None", _Val("argument (not None)"))):
             def binding(it, v=v):
-                return [_Sym(params(gfn.node)[0], cls="DataTransformBlock"), "stepname", v]
+                return [_Sym(ps[0], cls="DataTransformBlock"), opt, v]
             try:
                 paths = _run_func(ctx, gfn, binding)
             except Unknown as e:
@@ -2214,17 +2627,17 @@ def r8(ctx):
                 adds = [ev for ev in res.events if ev.attr in ("append", "extend", "insert", "add") and isinstance(_root(ev.recv), _Sym) and _root(ev.recv).cls]
                 trees = [x for ev in adds for x in ev.args if _tree_parts(x) is not None]
                 if res.raised or len(adds) != 1 or len(trees) != 1:
-                    unknown = f"for argument {v!r} the method " + (f"raises {res.raised}" if res.raised else f"does not add exactly one Tree to a collection of the block ({adds})")
+                    unknown = f"for an argument that is {case} the method " + (f"raises {res.raised}" if res.raised else f"does not add exactly one Tree to a collection of the block ({adds})")
                     break
                 name, children = _tree_parts(trees[0])
                 if not isinstance(children, (list, tuple)):
-                    unknown = "the children of the statement are not a known list"
+                    unknown = "the children of the statement are not a list the code built"
                     break
                 attached = len(children)
                 want = 0 if v is None else 1
-                if attached != want or name != "stepname":
-                    bad.append(f"argument {v!r} -> statement {name!r} with {attached} argument child(ren) (required {want})")
-                obs.append((repr(v), _path(adds[0].recv).split(".", 1)[-1], _show(trees[0])))
+                if attached != want or name is not opt:
+                    bad.append(f"argument {case} -> statement {_show(name)} with {attached} argument child(ren) on some path (required {want})")
+                obs.append((case, _path(adds[0].recv).split(".", 1)[-1], _show(trees[0])))
             if unknown:
                 break
         if unknown:
@@ -2232,16 +2645,16 @@ def r8(ctx):
             shapes[gfn.qualname] = None
             continue
         ctx.ob("R8", "AGREE", gfn, "argument attached iff not None", not bad,
-               "the statement gets its string child exactly when an argument is given (None: none; empty str/bytes: one)" if not bad else
-               "; ".join(bad)[:400] + " (an empty argument still needs its string child, otherwise the text does not parse)")
+               "the statement gets its string child exactly when an argument is given (None: none; any value that is not None, empty ones included: one)" if not bad else
+               "; ".join(sorted(set(bad)))[:400] + " (an empty argument still needs its string child, otherwise the text does not parse)")
         shapes[gfn.qualname] = obs
     va, vb = shapes.get(a.qualname), shapes.get(b.qualname)
     if va is None or vb is None:
-        ctx.undecided("R8", "AGREE", a, "add_step ~ add_termination", "one of the two builders could not be evaluated")
+        ctx.undecided("R8", "AGREE", a, "add_step ~ add_termination", "one of the two builders could not be followed")
         return
-    same = [(x[0], x[2]) for x in va] == [(x[0], x[2]) for x in vb]
+    same = sorted((x[0], x[2]) for x in va) == sorted((x[0], x[2]) for x in vb)
     distinct = {x[1] for x in va}.isdisjoint({x[1] for x in vb})
     ok = same and distinct
     ctx.ob("R8", "AGREE", a, "add_step ~ add_termination", ok,
-           "the two builders build the same statement and differ only in the list they append to" if ok else
+           "the two builders build the same statement term and differ only in the list they append to" if ok else
            f"siblings differ: add_step {va[:3]} add_termination {vb[:3]}; distinct lists={distinct}"[:500])
